@@ -41,20 +41,67 @@ pub struct B(pub u8);
 impl Debug for A { fn fmt(&self, f: &mut fmt::Formatter<'_>) -> fmt::Result { write!(f, "K({})", self.0) } }
 impl Debug for B { fn fmt(&self, f: &mut fmt::Formatter<'_>) -> fmt::Result { write!(f, "K({})", self.0) } }
 
-#[derive(Clone, Copy, PartialEq, Eq, Hash, PartialOrd, Ord, Debug)]
-pub enum KFam { A, B, Tup, U8, BoxA, RcA, ArcA, BoxB }
+/// Zero-sized families: unit structs with the same derives and the same hand-written Debug text. All zero-sized keys
+/// hash nothing (identical hash), every `Box` of them has the same dangling address, and borrowed locals / statics /
+/// promoted constants of different zero-sized types may share an address: only the type separates them.
+#[derive(Clone, PartialEq, Eq, Hash)]
+pub struct ZA;
+#[derive(Clone, PartialEq, Eq, Hash)]
+pub struct ZB;
+impl Debug for ZA { fn fmt(&self, f: &mut fmt::Formatter<'_>) -> fmt::Result { write!(f, "Z") } }
+impl Debug for ZB { fn fmt(&self, f: &mut fmt::Formatter<'_>) -> fmt::Result { write!(f, "Z") } }
+/// Newtype of a unit struct (still zero-sized), same Debug text.
+#[derive(Clone, PartialEq, Eq, Hash)]
+pub struct WA(pub ZA);
+impl Debug for WA { fn fmt(&self, f: &mut fmt::Formatter<'_>) -> fmt::Result { write!(f, "Z") } }
 
-pub const KFAMS: [KFam; 8] = [KFam::A, KFam::B, KFam::Tup, KFam::U8, KFam::BoxA, KFam::RcA, KFam::ArcA, KFam::BoxB];
-pub const KVALS: [u8; 2] = [0, 1];
+static S_ZA: ZA = ZA;
+static S_ZB: ZB = ZB;
+static S_WA: WA = WA(ZA);
+static S_UNIT: () = ();
+static S_A0: A = A(0);
+static S_A1: A = A(1);
+static S_B0: B = B(0);
+static S_B1: B = B(1);
+static S_T0: (u8,) = (0,);
+static S_T1: (u8,) = (1,);
+static S_U0: u8 = 0;
+static S_U1: u8 = 1;
+
+#[derive(Clone, Copy, PartialEq, Eq, Hash, PartialOrd, Ord, Debug)]
+pub enum KFam { A, B, Tup, U8, BoxA, RcA, ArcA, BoxB, ZA, ZB, Unit, WA, BoxZA, RcZA, ArcZA }
+
+pub const KFAMS: [KFam; 15] = [KFam::A, KFam::B, KFam::Tup, KFam::U8, KFam::BoxA, KFam::RcA, KFam::ArcA, KFam::BoxB,
+  KFam::ZA, KFam::ZB, KFam::Unit, KFam::WA, KFam::BoxZA, KFam::RcZA, KFam::ArcZA];
 
 impl KFam {
   pub fn name(&self) -> &'static str {
-    match self { KFam::A => "A", KFam::B => "B", KFam::Tup => "(u8,)", KFam::U8 => "u8", KFam::BoxA => "Box<A>", KFam::RcA => "Rc<A>", KFam::ArcA => "Arc<A>", KFam::BoxB => "Box<B>" }
+    match self {
+      KFam::A => "A", KFam::B => "B", KFam::Tup => "(u8,)", KFam::U8 => "u8", KFam::BoxA => "Box<A>", KFam::RcA => "Rc<A>", KFam::ArcA => "Arc<A>", KFam::BoxB => "Box<B>",
+      KFam::ZA => "ZA", KFam::ZB => "ZB", KFam::Unit => "()", KFam::WA => "WA", KFam::BoxZA => "Box<ZA>", KFam::RcZA => "Rc<ZA>", KFam::ArcZA => "Arc<ZA>",
+    }
   }
+  /// Families without a field have the single value 0.
+  pub fn fieldless(&self) -> bool { matches!(self, KFam::ZA | KFam::ZB | KFam::Unit | KFam::WA | KFam::BoxZA | KFam::RcZA | KFam::ArcZA) }
+  /// The concrete type itself is zero-sized.
+  pub fn zero_sized(&self) -> bool { matches!(self, KFam::ZA | KFam::ZB | KFam::Unit | KFam::WA) }
+  pub fn values(&self) -> &'static [u8] { if self.fieldless() { &[0] } else { &[0, 1] } }
 }
 
 /// A concrete key value kept by value (so that `&x as &dyn KeyObj` is taken from the concrete value, not from a box).
-pub enum Conc { A(A), B(B), Tup((u8,)), U8(u8), BoxA(Box<A>), RcA(Rc<A>), ArcA(Arc<A>), BoxB(Box<B>) }
+pub enum Conc {
+  A(A), B(B), Tup((u8,)), U8(u8), BoxA(Box<A>), RcA(Rc<A>), ArcA(Arc<A>), BoxB(Box<B>),
+  ZA(ZA), ZB(ZB), Unit(()), WA(WA), BoxZA(Box<ZA>), RcZA(Rc<ZA>), ArcZA(Arc<ZA>),
+}
+
+macro_rules! conc_each {
+  ($self:expr, $x:ident => $e:expr) => {
+    match $self {
+      Conc::A($x) => $e, Conc::B($x) => $e, Conc::Tup($x) => $e, Conc::U8($x) => $e, Conc::BoxA($x) => $e, Conc::RcA($x) => $e, Conc::ArcA($x) => $e, Conc::BoxB($x) => $e,
+      Conc::ZA($x) => $e, Conc::ZB($x) => $e, Conc::Unit($x) => $e, Conc::WA($x) => $e, Conc::BoxZA($x) => $e, Conc::RcZA($x) => $e, Conc::ArcZA($x) => $e,
+    }
+  };
+}
 
 impl Conc {
   pub fn new(f: KFam, v: u8) -> Conc {
@@ -62,30 +109,59 @@ impl Conc {
       KFam::A => Conc::A(A(v)), KFam::B => Conc::B(B(v)), KFam::Tup => Conc::Tup((v,)), KFam::U8 => Conc::U8(v),
       KFam::BoxA => Conc::BoxA(Box::new(A(v))), KFam::RcA => Conc::RcA(Rc::new(A(v))), KFam::ArcA => Conc::ArcA(Arc::new(A(v))),
       KFam::BoxB => Conc::BoxB(Box::new(B(v))),
+      KFam::ZA => Conc::ZA(ZA), KFam::ZB => Conc::ZB(ZB), KFam::Unit => Conc::Unit(()), KFam::WA => Conc::WA(WA(ZA)),
+      KFam::BoxZA => Conc::BoxZA(Box::new(ZA)), KFam::RcZA => Conc::RcZA(Rc::new(ZA)), KFam::ArcZA => Conc::ArcZA(Arc::new(ZA)),
     }
   }
-  pub fn as_dyn(&self) -> &dyn KeyObj {
-    match self {
-      Conc::A(x) => x as &dyn KeyObj, Conc::B(x) => x as &dyn KeyObj, Conc::Tup(x) => x as &dyn KeyObj, Conc::U8(x) => x as &dyn KeyObj,
-      Conc::BoxA(x) => x as &dyn KeyObj, Conc::RcA(x) => x as &dyn KeyObj, Conc::ArcA(x) => x as &dyn KeyObj, Conc::BoxB(x) => x as &dyn KeyObj,
-    }
-  }
-  pub fn boxed(&self) -> Box<dyn KeyObj> {
-    match self {
-      Conc::A(x) => Box::new(x.clone()), Conc::B(x) => Box::new(x.clone()), Conc::Tup(x) => Box::new(x.clone()), Conc::U8(x) => Box::new(x.clone()),
-      Conc::BoxA(x) => Box::new(x.clone()), Conc::RcA(x) => Box::new(x.clone()), Conc::ArcA(x) => Box::new(x.clone()), Conc::BoxB(x) => Box::new(x.clone()),
-    }
-  }
+  /// `&x as &dyn KeyObj` of the value stored in this enum.
+  pub fn as_dyn(&self) -> &dyn KeyObj { conc_each!(self, x => x as &dyn KeyObj) }
+  /// `Box<dyn KeyObj>` holding a clone (for zero-sized types: the dangling address shared by all of them).
+  pub fn boxed(&self) -> Box<dyn KeyObj> { conc_each!(self, x => Box::new(x.clone()) as Box<dyn KeyObj>) }
   /// Hash of the concrete value (no trait object involved) with a fresh `DefaultHasher`.
   pub fn concrete_hash(&self) -> u64 {
     let mut h = DefaultHasher::new();
-    match self {
-      Conc::A(x) => x.hash(&mut h), Conc::B(x) => x.hash(&mut h), Conc::Tup(x) => x.hash(&mut h), Conc::U8(x) => x.hash(&mut h),
-      Conc::BoxA(x) => x.hash(&mut h), Conc::RcA(x) => x.hash(&mut h), Conc::ArcA(x) => x.hash(&mut h), Conc::BoxB(x) => x.hash(&mut h),
-    }
+    conc_each!(self, x => x.hash(&mut h));
     h.finish()
   }
 }
+
+/// A `static` of the key, where the type allows one (not Box/Rc/Arc).
+pub fn static_form(k: (KFam, u8)) -> Option<&'static dyn KeyObj> {
+  Some(match k {
+    (KFam::A, 0) => &S_A0 as &dyn KeyObj, (KFam::A, 1) => &S_A1, (KFam::B, 0) => &S_B0, (KFam::B, 1) => &S_B1,
+    (KFam::Tup, 0) => &S_T0, (KFam::Tup, 1) => &S_T1, (KFam::U8, 0) => &S_U0, (KFam::U8, 1) => &S_U1,
+    (KFam::ZA, 0) => &S_ZA, (KFam::ZB, 0) => &S_ZB, (KFam::Unit, 0) => &S_UNIT, (KFam::WA, 0) => &S_WA,
+    _ => return None,
+  })
+}
+/// A promoted constant (`&ZA` as an rvalue with static lifetime) of the key, where the type allows one.
+pub fn promoted_form(k: (KFam, u8)) -> Option<&'static dyn KeyObj> {
+  Some(match k {
+    (KFam::A, 0) => &A(0) as &dyn KeyObj, (KFam::A, 1) => &A(1), (KFam::B, 0) => &B(0), (KFam::B, 1) => &B(1),
+    (KFam::Tup, 0) => &(0u8,), (KFam::Tup, 1) => &(1u8,), (KFam::U8, 0) => &0u8, (KFam::U8, 1) => &1u8,
+    (KFam::ZA, 0) => &ZA, (KFam::ZB, 0) => &ZB, (KFam::Unit, 0) => &(), (KFam::WA, 0) => &WA(ZA),
+    _ => return None,
+  })
+}
+
+/// One key in every operand form: stored in an enum (borrowed), boxed, borrowed from a fresh local box (`&*Box::new(x)`
+/// is the same as boxed), static, promoted constant.
+pub struct Operand {
+  pub key: (KFam, u8),
+  pub conc: Conc,
+  pub boxed: Box<dyn KeyObj>,
+}
+impl Operand {
+  pub fn new(key: (KFam, u8)) -> Operand { let conc = Conc::new(key.0, key.1); let boxed = conc.boxed(); Operand { key, conc, boxed } }
+  pub fn forms(&self) -> Vec<(&'static str, &dyn KeyObj)> {
+    let mut v: Vec<(&'static str, &dyn KeyObj)> = vec![("stored", self.conc.as_dyn()), ("boxed", self.boxed.as_ref())];
+    if let Some(s) = static_form(self.key) { v.push(("static", s)); }
+    if let Some(p) = promoted_form(self.key) { v.push(("promoted", p)); }
+    v
+  }
+}
+
+pub fn data_addr(k: &dyn KeyObj) -> usize { k as *const dyn KeyObj as *const () as usize }
 
 pub fn dyn_hash(k: &dyn KeyObj) -> u64 {
   let mut h = DefaultHasher::new();
@@ -93,10 +169,10 @@ pub fn dyn_hash(k: &dyn KeyObj) -> u64 {
   h.finish()
 }
 
-/// All part-A keys, smallest / most telling first: (A,0), (B,0), ... then value 1.
+/// All part-A keys, smallest / most telling first: (A,0), (B,0), ..., the zero-sized ones, then value 1.
 pub fn a_keys() -> Vec<(KFam, u8)> {
   let mut v = Vec::new();
-  for val in KVALS { for f in KFAMS { v.push((f, val)); } }
+  for val in [0u8, 1] { for f in KFAMS { if f.values().contains(&val) { v.push((f, val)); } } }
   v
 }
 fn a_key_name(k: (KFam, u8)) -> String { format!("{}:{}", k.0.name(), k.1) }
@@ -104,7 +180,7 @@ fn a_key_parse(s: &str) -> Option<(KFam, u8)> {
   let (f, v) = s.rsplit_once(':')?;
   let fam = KFAMS.iter().copied().find(|k| k.name() == f)?;
   let val: u8 = v.parse().ok()?;
-  if !KVALS.contains(&val) { return None; }
+  if !fam.values().contains(&val) { return None; }
   Some((fam, val))
 }
 
@@ -116,17 +192,17 @@ impl Hasher for ConstHasher {
   fn write(&mut self, _bytes: &[u8]) {}
 }
 
+/// One evaluated equality: route, operand forms, result, and whether both operands had the same data address.
+#[derive(Clone, PartialEq, Eq, Debug)]
+pub struct EqObs { pub route: &'static str, pub form_x: &'static str, pub form_y: &'static str, pub result: bool, pub same_addr: bool }
+
 /// Everything observed for one ordered pair.
 #[derive(Clone, PartialEq, Eq, Debug)]
 pub struct PairObs {
-  pub eq_dyn: bool,
-  pub eq_dyn_rev: bool,
-  pub eq_box_dyn: bool,
-  pub eq_box_dyn_rev: bool,
-  pub eq_box_box: bool,
-  pub eq_clone: bool,
-  pub hash_dyn_x: u64,
-  pub hash_dyn_y: u64,
+  /// all six equality routes over all operand forms
+  pub eqs: Vec<EqObs>,
+  pub hash_dyn_x: Vec<u64>,
+  pub hash_dyn_y: Vec<u64>,
   pub hash_box_x: u64,
   pub hash_conc_x: u64,
   pub hash_conc_y: u64,
@@ -136,10 +212,13 @@ pub struct PairObs {
 }
 
 impl PairObs {
+  pub fn eq_dyn_stored(&self) -> bool { self.eqs.iter().find(|e| e.route == "dyn==dyn" && e.form_x == "stored" && e.form_y == "stored").map(|e| e.result).unwrap_or(false) }
   fn to_json(&self) -> Value {
-    json!({"eq_dyn": self.eq_dyn, "eq_dyn_rev": self.eq_dyn_rev, "eq_box_dyn": self.eq_box_dyn, "eq_box_dyn_rev": self.eq_box_dyn_rev,
-      "eq_box_box": self.eq_box_box, "eq_clone": self.eq_clone, "hash_dyn_x": format!("{:016x}", self.hash_dyn_x), "hash_dyn_y": format!("{:016x}", self.hash_dyn_y),
-      "hash_box_x": format!("{:016x}", self.hash_box_x), "hash_conc_x": format!("{:016x}", self.hash_conc_x), "hash_conc_y": format!("{:016x}", self.hash_conc_y),
+    let hx = |v: &Vec<u64>| v.iter().map(|h| format!("{:016x}", h)).collect::<Vec<_>>();
+    json!({
+      "equalities": self.eqs.iter().map(|e| format!("{} [{} / {}]{} = {}", e.route, e.form_x, e.form_y, if e.same_addr { " (same address)" } else { "" }, e.result)).collect::<Vec<_>>(),
+      "hash_dyn_x": hx(&self.hash_dyn_x), "hash_dyn_y": hx(&self.hash_dyn_y), "hash_box_x": format!("{:016x}", self.hash_box_x),
+      "hash_conc_x": format!("{:016x}", self.hash_conc_x), "hash_conc_y": format!("{:016x}", self.hash_conc_y),
       "debug_x": self.debug_x, "debug_y": self.debug_y, "clone_same_type": self.clone_same_type})
   }
 }
@@ -148,30 +227,46 @@ impl PairObs {
 pub struct Fail { pub oracle: String, pub what: String, pub expected: Value, pub observed: Value }
 
 /// Executes all pairwise operations on the real trait-object code for the ordered pair (x, y). x and y are built
-/// independently (distinct allocations for Box/Rc/Arc even when x and y denote the same key).
+/// independently (distinct allocations for Box/Rc/Arc even when x and y denote the same key), in every operand form.
 pub fn observe_pair(x: (KFam, u8), y: (KFam, u8)) -> PairObs {
-  let cx = Conc::new(x.0, x.1);
-  let cy = Conc::new(y.0, y.1);
-  let dx: &dyn KeyObj = cx.as_dyn();
-  let dy: &dyn KeyObj = cy.as_dyn();
-  let bx: Box<dyn KeyObj> = cx.boxed();
-  let by: Box<dyn KeyObj> = cy.boxed();
-  let clone_x: Box<dyn KeyObj> = dx.to_owned();
+  let ox = Operand::new(x);
+  let oy = Operand::new(y);
+  let fx = ox.forms();
+  let fy = oy.forms();
+  let mut eqs = Vec::new();
+  for (nx, dx) in &fx {
+    for (ny, dy) in &fy {
+      let same_addr = data_addr(*dx) == data_addr(*dy);
+      // routes 1, 2: `&dyn KeyObj == &dyn KeyObj`, both operand orders
+      eqs.push(EqObs { route: "dyn==dyn", form_x: nx, form_y: ny, result: *dx == *dy, same_addr });
+      eqs.push(EqObs { route: "dyn==dyn(rev)", form_x: nx, form_y: ny, result: *dy == *dx, same_addr });
+      // route 6: clone of x (a fresh Box<dyn KeyObj>) against y
+      let cx: Box<dyn KeyObj> = (*dx).to_owned();
+      eqs.push(EqObs { route: "to_owned==dyn", form_x: nx, form_y: ny, result: cx.as_ref() == *dy, same_addr: data_addr(cx.as_ref()) == data_addr(*dy) });
+    }
+  }
+  for (ny, dy) in &fy {
+    // route 3: `Box<dyn KeyObj> == dyn KeyObj`
+    eqs.push(EqObs { route: "box==dyn", form_x: "boxed", form_y: ny, result: <Box<dyn KeyObj> as PartialEq<dyn KeyObj>>::eq(&ox.boxed, *dy), same_addr: data_addr(ox.boxed.as_ref()) == data_addr(*dy) });
+  }
+  for (nx, dx) in &fx {
+    // route 4: the same impl with the operands exchanged
+    eqs.push(EqObs { route: "box==dyn(rev)", form_x: nx, form_y: "boxed", result: <Box<dyn KeyObj> as PartialEq<dyn KeyObj>>::eq(&oy.boxed, *dx), same_addr: data_addr(oy.boxed.as_ref()) == data_addr(*dx) });
+  }
+  // route 5: `Box<dyn KeyObj> == Box<dyn KeyObj>`
+  eqs.push(EqObs { route: "box==box", form_x: "boxed", form_y: "boxed", result: ox.boxed == oy.boxed, same_addr: data_addr(ox.boxed.as_ref()) == data_addr(oy.boxed.as_ref()) });
+  let dx0 = ox.conc.as_dyn();
+  let clone_x: Box<dyn KeyObj> = dx0.to_owned();
   PairObs {
-    eq_dyn: dx == dy,
-    eq_dyn_rev: dy == dx,
-    eq_box_dyn: <Box<dyn KeyObj> as PartialEq<dyn KeyObj>>::eq(&bx, dy),
-    eq_box_dyn_rev: <Box<dyn KeyObj> as PartialEq<dyn KeyObj>>::eq(&by, dx),
-    eq_box_box: bx == by,
-    eq_clone: clone_x.as_ref() == dy,
-    hash_dyn_x: dyn_hash(dx),
-    hash_dyn_y: dyn_hash(dy),
-    hash_box_x: { let mut h = DefaultHasher::new(); bx.hash(&mut h); h.finish() },
-    hash_conc_x: cx.concrete_hash(),
-    hash_conc_y: cy.concrete_hash(),
-    debug_x: format!("{:?}", dx),
-    debug_y: format!("{:?}", dy),
-    clone_same_type: clone_x.as_ref().as_any().type_id() == dx.as_any().type_id(),
+    eqs,
+    hash_dyn_x: fx.iter().map(|(_, d)| dyn_hash(*d)).collect(),
+    hash_dyn_y: fy.iter().map(|(_, d)| dyn_hash(*d)).collect(),
+    hash_box_x: { let mut h = DefaultHasher::new(); ox.boxed.hash(&mut h); h.finish() },
+    hash_conc_x: ox.conc.concrete_hash(),
+    hash_conc_y: oy.conc.concrete_hash(),
+    debug_x: format!("{:?}", dx0),
+    debug_y: format!("{:?}", oy.conc.as_dyn()),
+    clone_same_type: clone_x.as_ref().as_any().type_id() == dx0.as_any().type_id(),
   }
 }
 
@@ -179,25 +274,29 @@ pub fn observe_pair(x: (KFam, u8), y: (KFam, u8)) -> PairObs {
 pub fn judge_pair(x: (KFam, u8), y: (KFam, u8), o: &PairObs) -> Vec<Fail> {
   let same = x == y;
   let mut fails = Vec::new();
-  let mut eqc = |id: &str, got: bool, text: &str| {
-    if got != same {
-      fails.push(Fail { oracle: format!("C15/A/{}", id), what: format!("{} of {} and {} is {} but identity (type, value) says {}", text, a_key_name(x), a_key_name(y), got, same), expected: json!(same), observed: json!(got) });
+  for e in &o.eqs {
+    if e.result != same {
+      let id = match e.route { "dyn==dyn" | "dyn==dyn(rev)" => "eq-dyn", "box==dyn" | "box==dyn(rev)" => "eq-box", "box==box" => "eq-box-box", _ => "eq-clone" };
+      if fails.iter().any(|f: &Fail| f.oracle == format!("C15/A/{}", id)) { continue; }
+      fails.push(Fail { oracle: format!("C15/A/{}", id), what: format!("`{}` of {} ({}) and {} ({}){} is {} but identity (type, value) says {}", e.route, a_key_name(x), e.form_x, a_key_name(y), e.form_y, if e.same_addr { " [operands share one address]" } else { "" }, e.result, same), expected: json!(same), observed: json!(e.result) });
     }
-  };
-  eqc("eq-dyn", o.eq_dyn, "`&dyn KeyObj == &dyn KeyObj`");
-  eqc("eq-dyn", o.eq_dyn_rev, "`&dyn KeyObj == &dyn KeyObj` (reversed operands)");
-  eqc("eq-box", o.eq_box_dyn, "`Box<dyn KeyObj> == dyn KeyObj`");
-  eqc("eq-box", o.eq_box_dyn_rev, "`Box<dyn KeyObj> == dyn KeyObj` (reversed operands)");
-  eqc("eq-box-box", o.eq_box_box, "`Box<dyn KeyObj> == Box<dyn KeyObj>`");
-  eqc("eq-clone", o.eq_clone, "`x.to_owned() == y`");
-  if o.eq_dyn != o.eq_dyn_rev {
-    fails.push(Fail { oracle: "C15/A/eq-symmetry".into(), what: format!("== on dyn KeyObj is not symmetric for {} and {}", a_key_name(x), a_key_name(y)), expected: json!("x==y equals y==x"), observed: json!([o.eq_dyn, o.eq_dyn_rev]) });
   }
-  if same && o.hash_dyn_x != o.hash_dyn_y {
-    fails.push(Fail { oracle: "C15/A/hash-equal-keys".into(), what: format!("equal keys {} hash differently through dyn KeyObj", a_key_name(x)), expected: json!("equal hashes"), observed: json!([format!("{:016x}", o.hash_dyn_x), format!("{:016x}", o.hash_dyn_y)]) });
+  // symmetry: every dyn==dyn evaluation is immediately followed by its reversed evaluation
+  for w in o.eqs.chunks(3) {
+    if w.len() == 3 && w[0].route == "dyn==dyn" && w[1].route == "dyn==dyn(rev)" && w[0].result != w[1].result {
+      fails.push(Fail { oracle: "C15/A/eq-symmetry".into(), what: format!("== on dyn KeyObj is not symmetric for {} ({}) and {} ({})", a_key_name(x), w[0].form_x, a_key_name(y), w[0].form_y), expected: json!("x==y equals y==x"), observed: json!([w[0].result, w[1].result]) });
+      break;
+    }
   }
-  if o.hash_box_x != o.hash_dyn_x {
-    fails.push(Fail { oracle: "C15/A/hash-box-vs-dyn".into(), what: format!("Box<dyn KeyObj> and dyn KeyObj hash differently for {} (breaks Borrow-based map lookup)", a_key_name(x)), expected: json!(format!("{:016x}", o.hash_dyn_x)), observed: json!(format!("{:016x}", o.hash_box_x)) });
+  let hx = o.hash_dyn_x[0];
+  if o.hash_dyn_x.iter().any(|h| *h != hx) {
+    fails.push(Fail { oracle: "C15/A/hash-equal-keys".into(), what: format!("operand forms of {} hash differently through dyn KeyObj", a_key_name(x)), expected: json!("equal hashes"), observed: json!(o.hash_dyn_x.iter().map(|h| format!("{:016x}", h)).collect::<Vec<_>>()) });
+  }
+  if same && o.hash_dyn_y.iter().any(|h| *h != hx) {
+    fails.push(Fail { oracle: "C15/A/hash-equal-keys".into(), what: format!("equal keys {} hash differently through dyn KeyObj", a_key_name(x)), expected: json!("equal hashes"), observed: json!([format!("{:016x}", hx), o.hash_dyn_y.iter().map(|h| format!("{:016x}", h)).collect::<Vec<_>>()]) });
+  }
+  if o.hash_box_x != hx {
+    fails.push(Fail { oracle: "C15/A/hash-box-vs-dyn".into(), what: format!("Box<dyn KeyObj> and dyn KeyObj hash differently for {} (breaks Borrow-based map lookup)", a_key_name(x)), expected: json!(format!("{:016x}", hx)), observed: json!(format!("{:016x}", o.hash_box_x)) });
   }
   if !o.clone_same_type {
     fails.push(Fail { oracle: "C15/A/clone-type".into(), what: format!("to_owned() of {} has another concrete type", a_key_name(x)), expected: json!(true), observed: json!(false) });
@@ -205,15 +304,15 @@ pub fn judge_pair(x: (KFam, u8), y: (KFam, u8), o: &PairObs) -> Vec<Fail> {
   fails
 }
 
-/// Observation of the collection test for one insertion order: for each hasher (random-state, fixed default, constant):
-/// (map len, set len, per key: what the map lookup returned, set membership).
+/// Observation of the collection test for one insertion order and one hasher: map len, set len, per key and operand
+/// form what the map lookup returned and the set membership.
 #[derive(Clone, PartialEq, Eq, Debug)]
 pub struct CollObs {
   pub hasher: &'static str,
   pub map_len: usize,
   pub set_len: usize,
-  pub lookups: Vec<Option<(KFam, u8)>>,
-  pub contains: Vec<bool>,
+  /// per key: (operand form, lookup result, set membership)
+  pub lookups: Vec<Vec<(&'static str, Option<(KFam, u8)>, bool)>>,
   pub absent_found: usize,
 }
 
@@ -229,19 +328,18 @@ fn coll_run<S: std::hash::BuildHasher + Default>(hasher: &'static str, order: &[
     }
   }
   let mut lookups = Vec::new();
-  let mut contains = Vec::new();
   for k in keys {
-    let c = Conc::new(k.0, k.1);
-    lookups.push(map.get(c.as_dyn()).copied());
-    contains.push(set.contains(c.as_dyn()));
+    let o = Operand::new(*k);
+    lookups.push(o.forms().iter().map(|(n, d)| (*n, map.get(*d).copied(), set.contains(*d))).collect());
   }
-  // Keys never inserted (value 2 of every family) must not be found.
+  // Keys never inserted (value 2 of every family with a field) must not be found.
   let mut absent_found = 0;
   for f in KFAMS {
+    if f.fieldless() { continue; }
     let c = Conc::new(f, 2);
     if map.get(c.as_dyn()).is_some() || set.contains(c.as_dyn()) { absent_found += 1; }
   }
-  CollObs { hasher, map_len: map.len(), set_len: set.len(), lookups, contains, absent_found }
+  CollObs { hasher, map_len: map.len(), set_len: set.len(), lookups, absent_found }
 }
 
 /// Insertion order number `n`: rotations 0..len, then reversed rotations.
@@ -273,11 +371,13 @@ pub fn judge_collections(order_no: usize, obs: &[CollObs]) -> Vec<Fail> {
       fails.push(Fail { oracle: "C15/A/set-entries".into(), what: format!("HashSet<Box<dyn KeyObj>> ({}) filled with all {} keys (insertion order {}) has {} entries", o.hasher, keys.len(), order_no, o.set_len), expected: json!(keys.len()), observed: json!(o.set_len) });
     }
     for (i, k) in keys.iter().enumerate() {
-      if o.lookups[i] != Some(*k) {
-        fails.push(Fail { oracle: "C15/A/map-lookup".into(), what: format!("lookup of {} in the map ({}, insertion order {}) found {:?}", a_key_name(*k), o.hasher, order_no, o.lookups[i].map(a_key_name)), expected: json!(a_key_name(*k)), observed: json!(o.lookups[i].map(a_key_name)) });
-      }
-      if !o.contains[i] {
-        fails.push(Fail { oracle: "C15/A/set-lookup".into(), what: format!("{} not found in the set ({}, insertion order {})", a_key_name(*k), o.hasher, order_no), expected: json!(true), observed: json!(false) });
+      for (form, found, contained) in &o.lookups[i] {
+        if *found != Some(*k) {
+          fails.push(Fail { oracle: "C15/A/map-lookup".into(), what: format!("lookup of {} ({}) in the map ({}, insertion order {}) found {:?}", a_key_name(*k), form, o.hasher, order_no, found.map(a_key_name)), expected: json!(a_key_name(*k)), observed: json!(found.map(a_key_name)) });
+        }
+        if !*contained {
+          fails.push(Fail { oracle: "C15/A/set-lookup".into(), what: format!("{} ({}) not found in the set ({}, insertion order {})", a_key_name(*k), form, o.hasher, order_no), expected: json!(true), observed: json!(false) });
+        }
       }
     }
     if o.absent_found != 0 {
@@ -291,12 +391,16 @@ pub fn judge_collections(order_no: usize, obs: &[CollObs]) -> Vec<Fail> {
 pub struct AStats {
   pub pairs: usize,
   pub evaluations: usize,
+  pub equality_evaluations: usize,
   pub same_key_pairs: usize,
   pub same_type_other_value: usize,
   pub cross_type_equal_value: usize,
   pub cross_type_other_value: usize,
   pub cross_type_equal_dyn_hash: usize,
   pub cross_type_equal_debug: usize,
+  pub cross_type_zero_sized_pairs: usize,
+  /// equality evaluations between keys of different types whose operands had the same data address
+  pub cross_type_same_address_evaluations: usize,
   pub observed_equal: usize,
   pub observed_unequal: usize,
   pub dyn_hash_equals_concrete_hash: usize,
@@ -318,6 +422,21 @@ pub struct FB(pub u8);
 impl Debug for FA { fn fmt(&self, f: &mut fmt::Formatter<'_>) -> fmt::Result { write!(f, "F({})", self.0) } }
 impl Debug for FB { fn fmt(&self, f: &mut fmt::Formatter<'_>) -> fmt::Result { write!(f, "F({})", self.0) } }
 
+/// Zero-sized task types: unit structs, same derives, same Debug text, same (empty) hash. `ZTA` behaves exactly like
+/// `FA(0)`, `ZTB` like `FB(0)`; `ZUA` / `ZUB` read the zero-sized resources `ZRA` / `ZRB`.
+#[derive(Clone, PartialEq, Eq, Hash)]
+pub struct ZTA;
+#[derive(Clone, PartialEq, Eq, Hash)]
+pub struct ZTB;
+#[derive(Clone, PartialEq, Eq, Hash)]
+pub struct ZUA;
+#[derive(Clone, PartialEq, Eq, Hash)]
+pub struct ZUB;
+impl Debug for ZTA { fn fmt(&self, f: &mut fmt::Formatter<'_>) -> fmt::Result { write!(f, "ZT") } }
+impl Debug for ZTB { fn fmt(&self, f: &mut fmt::Formatter<'_>) -> fmt::Result { write!(f, "ZT") } }
+impl Debug for ZUA { fn fmt(&self, f: &mut fmt::Formatter<'_>) -> fmt::Result { write!(f, "ZT") } }
+impl Debug for ZUB { fn fmt(&self, f: &mut fmt::Formatter<'_>) -> fmt::Result { write!(f, "ZT") } }
+
 /// Resource family A / B: same derives / Debug text / Hash.
 #[derive(Clone, PartialEq, Eq, Hash)]
 pub struct RA(pub u8);
@@ -325,14 +444,27 @@ pub struct RA(pub u8);
 pub struct RB(pub u8);
 impl Debug for RA { fn fmt(&self, f: &mut fmt::Formatter<'_>) -> fmt::Result { write!(f, "R({})", self.0) } }
 impl Debug for RB { fn fmt(&self, f: &mut fmt::Formatter<'_>) -> fmt::Result { write!(f, "R({})", self.0) } }
+/// Zero-sized resource types, each with its own cell (index 0 of its own per-type `Cells`).
+#[derive(Clone, PartialEq, Eq, Hash)]
+pub struct ZRA;
+#[derive(Clone, PartialEq, Eq, Hash)]
+pub struct ZRB;
+impl Debug for ZRA { fn fmt(&self, f: &mut fmt::Formatter<'_>) -> fmt::Result { write!(f, "ZR") } }
+impl Debug for ZRB { fn fmt(&self, f: &mut fmt::Formatter<'_>) -> fmt::Result { write!(f, "ZR") } }
 
-/// Cell store; one instance per resource TYPE, kept in pie's per-resource-type state (same state type for both).
+/// Cell store; one instance per resource TYPE, kept in pie's per-resource-type state (same state type for all).
 #[derive(Default, Clone, Debug)]
 pub struct Cells { pub v: [u8; 2] }
 
 /// Equality-style resource checker: stamp = cell value.
 #[derive(Clone, Copy, PartialEq, Eq, Hash, Debug)]
 pub struct CellEq;
+
+trait CellId { fn cell_id(&self) -> usize; }
+impl CellId for RA { fn cell_id(&self) -> usize { self.0 as usize } }
+impl CellId for RB { fn cell_id(&self) -> usize { self.0 as usize } }
+impl CellId for ZRA { fn cell_id(&self) -> usize { 0 } }
+impl CellId for ZRB { fn cell_id(&self) -> usize { 0 } }
 
 macro_rules! impl_cell_resource {
   ($ty:ty) => {
@@ -341,7 +473,7 @@ macro_rules! impl_cell_resource {
       type Writer<'r> = ();
       type Error = Infallible;
       fn read<'rs, RS: ResourceState<Self>>(&self, state: &'rs mut RS) -> Result<u8, Infallible> {
-        Ok(state.get_or_set_default_mut::<Cells>().v[self.0 as usize])
+        Ok(state.get_or_set_default_mut::<Cells>().v[self.cell_id()])
       }
       fn write<'r, RS: ResourceState<Self>>(&'r self, _state: &'r mut RS) -> Result<(), Infallible> { Ok(()) }
     }
@@ -349,14 +481,14 @@ macro_rules! impl_cell_resource {
       type Stamp = u8;
       type Error = Infallible;
       fn stamp<RS: ResourceState<$ty>>(&self, resource: &$ty, state: &mut RS) -> Result<u8, Infallible> {
-        Ok(state.get_or_set_default_mut::<Cells>().v[resource.0 as usize])
+        Ok(state.get_or_set_default_mut::<Cells>().v[resource.cell_id()])
       }
       fn stamp_reader(&self, _resource: &$ty, reader: &mut u8) -> Result<u8, Infallible> { Ok(*reader) }
       fn stamp_writer(&self, _resource: &$ty, _writer: ()) -> Result<u8, Infallible> {
         panic!("HARNESS-BUG: C15 resources are never written through pie")
       }
       fn check<RS: ResourceState<$ty>>(&self, resource: &$ty, state: &mut RS, stamp: &u8) -> Result<Option<impl Debug>, Infallible> {
-        let now = state.get_or_set_default_mut::<Cells>().v[resource.0 as usize];
+        let now = state.get_or_set_default_mut::<Cells>().v[resource.cell_id()];
         Ok(if now != *stamp { Some(now) } else { None })
       }
       fn wrap_error(&self, error: Infallible) -> Infallible { match error {} }
@@ -365,51 +497,90 @@ macro_rules! impl_cell_resource {
 }
 impl_cell_resource!(RA);
 impl_cell_resource!(RB);
+impl_cell_resource!(ZRA);
+impl_cell_resource!(ZRB);
 
-impl Task for FA {
-  type Output = u8;
-  fn execute<C: Context>(&self, context: &mut C) -> u8 {
-    let cell: u8 = match context.read(&RA(self.0), CellEq) { Ok(r) => r, Err(e) => match e {} };
-    cell * 10 + 1
-  }
+macro_rules! impl_reading_task {
+  ($ty:ty, $slf:ident => $res:expr, $tag:expr) => {
+    impl Task for $ty {
+      type Output = u8;
+      fn execute<C: Context>(&self, context: &mut C) -> u8 {
+        let $slf = self;
+        let cell: u8 = match context.read(&$res, CellEq) { Ok(r) => r, Err(e) => match e {} };
+        cell * 10 + $tag
+      }
+    }
+  };
 }
-impl Task for FB {
-  type Output = u8;
-  fn execute<C: Context>(&self, context: &mut C) -> u8 {
-    let cell: u8 = match context.read(&RB(self.0), CellEq) { Ok(r) => r, Err(e) => match e {} };
-    cell * 10 + 2
-  }
-}
+impl_reading_task!(FA, s => RA(s.0), 1);
+impl_reading_task!(FB, s => RB(s.0), 2);
+impl_reading_task!(ZTA, _s => RA(0), 1);
+impl_reading_task!(ZTB, _s => RB(0), 2);
+impl_reading_task!(ZUA, _s => ZRA, 3);
+impl_reading_task!(ZUB, _s => ZRB, 4);
 
-/// Leaf task families (concrete Rust types): FA, FB, Box<FA>, Rc<FA>, Arc<FA>, Box<FB>.
+/// Leaf task families (concrete Rust types). `Unit` is pie's own `impl Task for ()` (output `()`, shown as 0).
 #[derive(Clone, Copy, PartialEq, Eq, Hash, PartialOrd, Ord, Debug)]
-pub enum Fam { A, B, BoxA, RcA, ArcA, BoxB }
-pub const FAMS: [Fam; 6] = [Fam::A, Fam::B, Fam::BoxA, Fam::RcA, Fam::ArcA, Fam::BoxB];
+pub enum Fam { A, B, BoxA, RcA, ArcA, BoxB, ZTA, ZTB, BoxZTA, ZUA, ZUB, Unit }
+pub const NF: usize = 12;
+pub const FAMS: [Fam; NF] = [Fam::A, Fam::B, Fam::BoxA, Fam::RcA, Fam::ArcA, Fam::BoxB, Fam::ZTA, Fam::ZTB, Fam::BoxZTA, Fam::ZUA, Fam::ZUB, Fam::Unit];
 
 #[derive(Clone, Copy, PartialEq, Eq, Hash, PartialOrd, Ord, Debug)]
-pub enum RFam { RA, RB }
-pub const RFAMS: [RFam; 2] = [RFam::RA, RFam::RB];
+pub enum RFam { RA, RB, ZRA, ZRB }
+pub const NR: usize = 4;
+pub const RFAMS: [RFam; NR] = [RFam::RA, RFam::RB, RFam::ZRA, RFam::ZRB];
 
 impl Fam {
   pub fn idx(self) -> usize { self as usize }
   pub fn name(self) -> &'static str {
-    match self { Fam::A => "FA", Fam::B => "FB", Fam::BoxA => "Box<FA>", Fam::RcA => "Rc<FA>", Fam::ArcA => "Arc<FA>", Fam::BoxB => "Box<FB>" }
+    match self {
+      Fam::A => "FA", Fam::B => "FB", Fam::BoxA => "Box<FA>", Fam::RcA => "Rc<FA>", Fam::ArcA => "Arc<FA>", Fam::BoxB => "Box<FB>",
+      Fam::ZTA => "ZTA", Fam::ZTB => "ZTB", Fam::BoxZTA => "Box<ZTA>", Fam::ZUA => "ZUA", Fam::ZUB => "ZUB", Fam::Unit => "()",
+    }
   }
   /// Tag shown in `P(tag,v)`.
   pub fn tag(self) -> &'static str {
-    match self { Fam::A => "A", Fam::B => "B", Fam::BoxA => "BoxA", Fam::RcA => "RcA", Fam::ArcA => "ArcA", Fam::BoxB => "BoxB" }
+    match self {
+      Fam::A => "A", Fam::B => "B", Fam::BoxA => "BoxA", Fam::RcA => "RcA", Fam::ArcA => "ArcA", Fam::BoxB => "BoxB",
+      Fam::ZTA => "ZTA", Fam::ZTB => "ZTB", Fam::BoxZTA => "BoxZTA", Fam::ZUA => "ZUA", Fam::ZUB => "ZUB", Fam::Unit => "Unit",
+    }
   }
-  /// Which resource family the underlying task reads.
-  pub fn rfam(self) -> RFam { match self { Fam::A | Fam::BoxA | Fam::RcA | Fam::ArcA => RFam::RA, Fam::B | Fam::BoxB => RFam::RB } }
-  /// Output of a task of this family that read `cell`.
-  pub fn out(self, cell: u8) -> u8 { cell * 10 + match self.rfam() { RFam::RA => 1, RFam::RB => 2 } }
+  /// Families of types without a field have the single value 0.
+  pub fn fieldless(self) -> bool { !matches!(self, Fam::A | Fam::B | Fam::BoxA | Fam::RcA | Fam::ArcA | Fam::BoxB) }
+  pub fn values(self) -> &'static [u8] { if self.fieldless() { &[0] } else { &[0, 1] } }
+  /// The resource a task of this family with value `v` reads.
+  pub fn resource(self, v: u8) -> Option<RKey> {
+    match self {
+      Fam::A | Fam::BoxA | Fam::RcA | Fam::ArcA => Some(RKey(RFam::RA, v)),
+      Fam::B | Fam::BoxB => Some(RKey(RFam::RB, v)),
+      Fam::ZTA | Fam::BoxZTA => Some(RKey(RFam::RA, 0)),
+      Fam::ZTB => Some(RKey(RFam::RB, 0)),
+      Fam::ZUA => Some(RKey(RFam::ZRA, 0)),
+      Fam::ZUB => Some(RKey(RFam::ZRB, 0)),
+      Fam::Unit => None,
+    }
+  }
+  /// Output of a task of this family that read `cell` (`()` is shown as 0).
+  pub fn out(self, cell: u8) -> u8 {
+    match self {
+      Fam::A | Fam::BoxA | Fam::RcA | Fam::ArcA | Fam::ZTA | Fam::BoxZTA => cell * 10 + 1,
+      Fam::B | Fam::BoxB | Fam::ZTB => cell * 10 + 2,
+      Fam::ZUA => cell * 10 + 3,
+      Fam::ZUB => cell * 10 + 4,
+      Fam::Unit => 0,
+    }
+  }
 }
 impl RFam {
   pub fn idx(self) -> usize { self as usize }
-  pub fn name(self) -> &'static str { match self { RFam::RA => "RA", RFam::RB => "RB" } }
+  pub fn name(self) -> &'static str { match self { RFam::RA => "RA", RFam::RB => "RB", RFam::ZRA => "ZRA", RFam::ZRB => "ZRB" } }
+  pub fn fieldless(self) -> bool { matches!(self, RFam::ZRA | RFam::ZRB) }
+  pub fn values(self) -> &'static [u8] { if self.fieldless() { &[0] } else { &[0, 1] } }
 }
 
 /// Parent task: requires the child of the given family / value with pie's `EqualsChecker` and returns its output.
+/// Zero-sized children are required through `&*Box::new(child)`, i.e. with the dangling address every boxed
+/// zero-sized value (including the keys stored inside pie) has.
 #[derive(Clone, PartialEq, Eq, Hash, Debug)]
 pub struct P(pub Fam, pub u8);
 
@@ -424,6 +595,12 @@ impl Task for P {
       Fam::RcA => context.require(&Rc::new(FA(v)), EqualsChecker),
       Fam::ArcA => context.require(&Arc::new(FA(v)), EqualsChecker),
       Fam::BoxB => context.require(&Box::new(FB(v)), EqualsChecker),
+      Fam::ZTA => context.require(&*Box::new(ZTA), EqualsChecker),
+      Fam::ZTB => context.require(&*Box::new(ZTB), EqualsChecker),
+      Fam::BoxZTA => context.require(&Box::new(ZTA), EqualsChecker),
+      Fam::ZUA => context.require(&*Box::new(ZUA), EqualsChecker),
+      Fam::ZUB => context.require(&*Box::new(ZUB), EqualsChecker),
+      Fam::Unit => { context.require(&*Box::new(()), EqualsChecker); 0 }
     }
   }
 }
@@ -437,10 +614,13 @@ pub struct RKey(pub RFam, pub u8);
 
 impl TKey {
   pub fn name(&self) -> String {
-    match self { TKey::Leaf(f, v) => format!("{}({})", f.name(), v), TKey::Par(f, v) => format!("P({},{})", f.tag(), v) }
+    match self {
+      TKey::Leaf(f, v) => if f.fieldless() { f.name().to_string() } else { format!("{}({})", f.name(), v) },
+      TKey::Par(f, v) => format!("P({},{})", f.tag(), v),
+    }
   }
   pub fn parse(s: &str) -> Option<TKey> {
-    for f in FAMS { for v in 0..2u8 {
+    for f in FAMS { for &v in f.values() {
       if TKey::Leaf(f, v).name() == s { return Some(TKey::Leaf(f, v)); }
       if TKey::Par(f, v).name() == s { return Some(TKey::Par(f, v)); }
     } }
@@ -449,9 +629,9 @@ impl TKey {
   pub fn fam_val(&self) -> (Fam, u8) { match self { TKey::Leaf(f, v) | TKey::Par(f, v) => (*f, *v) } }
 }
 impl RKey {
-  pub fn name(&self) -> String { format!("{}({})", self.0.name(), self.1) }
+  pub fn name(&self) -> String { if self.0.fieldless() { self.0.name().to_string() } else { format!("{}({})", self.0.name(), self.1) } }
   pub fn parse(s: &str) -> Option<RKey> {
-    for f in RFAMS { for v in 0..2u8 { if RKey(f, v).name() == s { return Some(RKey(f, v)); } } }
+    for f in RFAMS { for &v in f.values() { if RKey(f, v).name() == s { return Some(RKey(f, v)); } } }
     None
   }
 }
@@ -464,6 +644,12 @@ pub fn classify_task(k: &dyn KeyObj) -> Option<TKey> {
   if let Some(t) = a.downcast_ref::<Rc<FA>>() { return Some(TKey::Leaf(Fam::RcA, (**t).0)); }
   if let Some(t) = a.downcast_ref::<Arc<FA>>() { return Some(TKey::Leaf(Fam::ArcA, (**t).0)); }
   if let Some(t) = a.downcast_ref::<Box<FB>>() { return Some(TKey::Leaf(Fam::BoxB, (**t).0)); }
+  if a.is::<ZTA>() { return Some(TKey::Leaf(Fam::ZTA, 0)); }
+  if a.is::<ZTB>() { return Some(TKey::Leaf(Fam::ZTB, 0)); }
+  if a.is::<Box<ZTA>>() { return Some(TKey::Leaf(Fam::BoxZTA, 0)); }
+  if a.is::<ZUA>() { return Some(TKey::Leaf(Fam::ZUA, 0)); }
+  if a.is::<ZUB>() { return Some(TKey::Leaf(Fam::ZUB, 0)); }
+  if a.is::<()>() { return Some(TKey::Leaf(Fam::Unit, 0)); }
   if let Some(t) = a.downcast_ref::<P>() { return Some(TKey::Par(t.0, t.1)); }
   None
 }
@@ -471,6 +657,8 @@ pub fn classify_res(k: &dyn KeyObj) -> Option<RKey> {
   let a = k.as_any();
   if let Some(r) = a.downcast_ref::<RA>() { return Some(RKey(RFam::RA, r.0)); }
   if let Some(r) = a.downcast_ref::<RB>() { return Some(RKey(RFam::RB, r.0)); }
+  if a.is::<ZRA>() { return Some(RKey(RFam::ZRA, 0)); }
+  if a.is::<ZRB>() { return Some(RKey(RFam::ZRB, 0)); }
   None
 }
 
@@ -575,7 +763,11 @@ struct Collector {
   unknown: Vec<String>,
 }
 
-fn stamp_u8(v: &dyn pie::trait_object::ValueObj) -> Option<u8> { v.as_any().downcast_ref::<u8>().copied() }
+/// Outputs / stamps are `u8`, except for pie's unit task whose output `()` is shown as 0.
+fn stamp_u8(v: &dyn pie::trait_object::ValueObj) -> Option<u8> {
+  if v.as_any().is::<()>() { return Some(0); }
+  v.as_any().downcast_ref::<u8>().copied()
+}
 
 impl VerifStoreVisitor for Collector {
   fn node(&mut self, node: Node, _rank: u32, data: VerifNode<'_>) {
@@ -648,18 +840,34 @@ pub struct Obs {
   pub executed: Vec<TKey>,
   pub panic: Option<String>,
   pub dep_errors: usize,
-  pub cells: [[u8; 2]; 2],
+  pub cells: [[u8; 2]; NR],
   pub census: Census,
 }
 impl Obs {
   pub fn to_json(&self) -> Value {
     json!({"outputs": self.outputs, "executed": self.executed.iter().map(|k| k.name()).collect::<Vec<_>>(), "panic": self.panic,
-      "dependency_check_errors": self.dep_errors, "cells": {"RA": self.cells[0], "RB": self.cells[1]}, "store": self.census.to_json()})
+      "dependency_check_errors": self.dep_errors, "cells": {"RA": self.cells[0], "RB": self.cells[1], "ZRA": self.cells[2][0], "ZRB": self.cells[3][0]}, "store": self.census.to_json()})
   }
 }
 
-fn require_key(s: &mut pie::Session<'_>, k: TKey) -> u8 {
+/// How zero-sized keys are handed to pie by the harness: through `&*Box::new(key)` (the reference has the dangling
+/// address that every boxed zero-sized value, including the keys stored inside pie's maps, has) or as a borrowed local.
+#[derive(Clone, Copy, PartialEq, Eq, Debug)]
+pub enum ZForm { BoxDeref, Local }
+impl ZForm {
+  pub fn name(&self) -> &'static str { match self { ZForm::BoxDeref => "box-deref", ZForm::Local => "local" } }
+  pub fn parse(s: &str) -> Option<ZForm> { match s { "box-deref" => Some(ZForm::BoxDeref), "local" => Some(ZForm::Local), _ => None } }
+}
+
+fn require_key(s: &mut pie::Session<'_>, k: TKey, z: ZForm) -> u8 {
+  macro_rules! zreq { ($e:expr) => { match z { ZForm::BoxDeref => { let b = Box::new($e); s.require(&*b) } ZForm::Local => { let l = $e; s.require(&l) } } }; }
   match k {
+    TKey::Leaf(Fam::ZTA, _) => zreq!(ZTA),
+    TKey::Leaf(Fam::ZTB, _) => zreq!(ZTB),
+    TKey::Leaf(Fam::BoxZTA, _) => s.require(&Box::new(ZTA)),
+    TKey::Leaf(Fam::ZUA, _) => zreq!(ZUA),
+    TKey::Leaf(Fam::ZUB, _) => zreq!(ZUB),
+    TKey::Leaf(Fam::Unit, _) => { zreq!(()); 0 }
     TKey::Leaf(Fam::A, v) => s.require(&FA(v)),
     TKey::Leaf(Fam::B, v) => s.require(&FB(v)),
     TKey::Leaf(Fam::BoxA, v) => s.require(&Box::new(FA(v))),
@@ -672,14 +880,16 @@ fn require_key(s: &mut pie::Session<'_>, k: TKey) -> u8 {
 
 pub fn new_pie() -> Pie<Rec> { Pie::with_tracker(Rec::default()) }
 
-fn read_cells(pie: &mut Pie<Rec>) -> [[u8; 2]; 2] {
+fn read_cells(pie: &mut Pie<Rec>) -> [[u8; 2]; NR] {
   let a = pie.resource_state_mut::<RA>().get_or_set_default_mut::<Cells>().v;
   let b = pie.resource_state_mut::<RB>().get_or_set_default_mut::<Cells>().v;
-  [a, b]
+  let c = pie.resource_state_mut::<ZRA>().get_or_set_default_mut::<Cells>().v;
+  let d = pie.resource_state_mut::<ZRB>().get_or_set_default_mut::<Cells>().v;
+  [a, b, c, d]
 }
 
 /// Applies `op` to the real Pie. `observe`: also take the store census (skipped for path prefixes).
-pub fn apply_real(pie: &mut Pie<Rec>, op: &Op, observe: bool) -> Obs {
+pub fn apply_real(pie: &mut Pie<Rec>, op: &Op, observe: bool, z: ZForm) -> Obs {
   pie.tracker_mut().executed.clear();
   let mut outputs = Vec::new();
   let mut dep_errors = 0;
@@ -688,12 +898,14 @@ pub fn apply_real(pie: &mut Pie<Rec>, op: &Op, observe: bool) -> Obs {
   match op {
     Op::SetCell(RKey(RFam::RA, id), v) => { pie.resource_state_mut::<RA>().get_or_set_default_mut::<Cells>().v[*id as usize] = *v; }
     Op::SetCell(RKey(RFam::RB, id), v) => { pie.resource_state_mut::<RB>().get_or_set_default_mut::<Cells>().v[*id as usize] = *v; }
+    Op::SetCell(RKey(RFam::ZRA, _), v) => { pie.resource_state_mut::<ZRA>().get_or_set_default_mut::<Cells>().v[0] = *v; }
+    Op::SetCell(RKey(RFam::ZRB, _), v) => { pie.resource_state_mut::<ZRB>().get_or_set_default_mut::<Cells>().v[0] = *v; }
     Op::Req(_) | Op::Req2(_, _) => {
       let keys: Vec<TKey> = match op { Op::Req(k) => vec![*k], Op::Req2(a, b) => vec![*a, *b], _ => unreachable!() };
       let res = catch_unwind(AssertUnwindSafe(|| {
         let mut s = pie.new_session();
         let mut outs = Vec::new();
-        for k in &keys { outs.push(require_key(&mut s, *k)); }
+        for k in &keys { outs.push(require_key(&mut s, *k, z)); }
         let n = s.dependency_check_errors().len();
         (outs, n)
       }));
@@ -708,7 +920,14 @@ pub fn apply_real(pie: &mut Pie<Rec>, op: &Op, observe: bool) -> Obs {
         let mut s = pie.new_session();
         {
           let mut b = s.create_bottom_up_build();
-          match r { RKey(RFam::RA, id) => b.schedule_tasks_affected_by(&RA(id)), RKey(RFam::RB, id) => b.schedule_tasks_affected_by(&RB(id)) }
+          match (r, z) {
+            (RKey(RFam::RA, id), _) => b.schedule_tasks_affected_by(&RA(id)),
+            (RKey(RFam::RB, id), _) => b.schedule_tasks_affected_by(&RB(id)),
+            (RKey(RFam::ZRA, _), ZForm::BoxDeref) => { let x = Box::new(ZRA); b.schedule_tasks_affected_by(&*x) }
+            (RKey(RFam::ZRA, _), ZForm::Local) => { let x = ZRA; b.schedule_tasks_affected_by(&x) }
+            (RKey(RFam::ZRB, _), ZForm::BoxDeref) => { let x = Box::new(ZRB); b.schedule_tasks_affected_by(&*x) }
+            (RKey(RFam::ZRB, _), ZForm::Local) => { let x = ZRB; b.schedule_tasks_affected_by(&x) }
+          }
           b.update_affected_tasks();
         }
         let n = s.dependency_check_errors().len();
@@ -723,7 +942,7 @@ pub fn apply_real(pie: &mut Pie<Rec>, op: &Op, observe: bool) -> Obs {
   if !pie.tracker().unknown.is_empty() { engine_error(&format!("C15: tracker saw tasks the harness never created: {:?}", pie.tracker().unknown)); }
   if let Some(p) = &panic { if p.contains("HARNESS-BUG") { engine_error(&format!("C15: {}", p)); } }
   let executed = pie.tracker().executed.clone();
-  let (cells, census) = if observe && panic.is_none() { (read_cells(pie), census_of(pie)) } else { ([[0; 2]; 2], Census::default()) };
+  let (cells, census) = if observe && panic.is_none() { (read_cells(pie), census_of(pie)) } else { ([[0; 2]; NR], Census::default()) };
   Obs { outputs, executed, panic, dep_errors, cells, census }
 }
 
@@ -731,15 +950,15 @@ pub fn apply_real(pie: &mut Pie<Rec>, op: &Op, observe: bool) -> Obs {
 // Part B: reference model
 // =====================================================================================================================
 
-/// Model state. `leaf[f][v]` = the cell value the task read at its last execution (None = never required);
-/// `par[f][v]` = the child output `P(f,v)` saw at its last execution; `rnodes` = resource nodes that must exist;
-/// `cells` = current cell values.
+/// Model state. `leaf[f][v]` = the cell value the task read at its last execution (None = never required; the unit
+/// task, which reads nothing, records 0); `par[f][v]` = the child output `P(f,v)` saw at its last execution;
+/// `rnodes` = resource nodes that must exist; `cells` = current cell values.
 #[derive(Clone, Copy, PartialEq, Eq, Hash, Debug, Default)]
 pub struct MState {
-  pub leaf: [[Option<u8>; 2]; 6],
-  pub par: [[Option<u8>; 2]; 6],
-  pub rnodes: [[bool; 2]; 2],
-  pub cells: [[u8; 2]; 2],
+  pub leaf: [[Option<u8>; 2]; NF],
+  pub par: [[Option<u8>; 2]; NF],
+  pub rnodes: [[bool; 2]; NR],
+  pub cells: [[u8; 2]; NR],
 }
 
 /// What the model expects from one operation.
@@ -751,7 +970,8 @@ pub struct Expect {
 }
 
 impl MState {
-  fn cell(&self, f: Fam, v: u8) -> u8 { self.cells[f.rfam().idx()][v as usize] }
+  /// Current content of what leaf (f,v) reads (0 for the unit task, which reads nothing).
+  fn cell(&self, f: Fam, v: u8) -> u8 { match f.resource(v) { Some(r) => self.cells[r.0.idx()][r.1 as usize], None => 0 } }
 
   /// Makes leaf (f,v) consistent top-down; returns its output.
   fn ensure_leaf(&mut self, f: Fam, v: u8, executed: &mut Vec<TKey>) -> u8 {
@@ -759,7 +979,7 @@ impl MState {
     if self.leaf[f.idx()][v as usize] != Some(cell) {
       executed.push(TKey::Leaf(f, v));
       self.leaf[f.idx()][v as usize] = Some(cell);
-      self.rnodes[f.rfam().idx()][v as usize] = true;
+      if let Some(r) = f.resource(v) { self.rnodes[r.0.idx()][r.1 as usize] = true; }
     }
     f.out(cell)
   }
@@ -801,20 +1021,20 @@ impl MState {
         // `schedule_tasks_affected_by` creates the resource node if it does not exist yet.
         self.rnodes[r.0.idx()][r.1 as usize] = true;
         let cell = self.cells[r.0.idx()][r.1 as usize];
-        for f in FAMS {
-          if f.rfam() != r.0 { continue; }
-          let Some(read) = self.leaf[f.idx()][r.1 as usize] else { continue; };
+        for f in FAMS { for &v in f.values() {
+          if f.resource(v) != Some(*r) { continue; }
+          let Some(read) = self.leaf[f.idx()][v as usize] else { continue; };
           if read == cell { continue; }
-          e.executed.push(TKey::Leaf(f, r.1));
-          self.leaf[f.idx()][r.1 as usize] = Some(cell);
+          e.executed.push(TKey::Leaf(f, v));
+          self.leaf[f.idx()][v as usize] = Some(cell);
           let out = f.out(cell);
-          if let Some(seen) = self.par[f.idx()][r.1 as usize] {
+          if let Some(seen) = self.par[f.idx()][v as usize] {
             if seen != out {
-              e.executed.push(TKey::Par(f, r.1));
-              self.par[f.idx()][r.1 as usize] = Some(out);
+              e.executed.push(TKey::Par(f, v));
+              self.par[f.idx()][v as usize] = Some(out);
             }
           }
-        }
+        } }
       }
     }
     e.executed.sort();
@@ -824,17 +1044,17 @@ impl MState {
   /// The store census this state implies.
   pub fn census(&self) -> Census {
     let mut c = Census::default();
-    for f in FAMS { for v in 0..2u8 {
+    for f in FAMS { for &v in f.values() {
       if let Some(cell) = self.leaf[f.idx()][v as usize] {
         c.tasks.push((TKey::Leaf(f, v), Some(f.out(cell))));
-        c.edges.push(EdgeObs::Read { src: TKey::Leaf(f, v), dst: RKey(f.rfam(), v), stamp: Some(cell) });
+        if let Some(r) = f.resource(v) { c.edges.push(EdgeObs::Read { src: TKey::Leaf(f, v), dst: r, stamp: Some(cell) }); }
       }
       if let Some(seen) = self.par[f.idx()][v as usize] {
         c.tasks.push((TKey::Par(f, v), Some(seen)));
         c.edges.push(EdgeObs::Require { src: TKey::Par(f, v), dst: TKey::Leaf(f, v), stamp: Some(seen) });
       }
     } }
-    for rf in RFAMS { for v in 0..2u8 { if self.rnodes[rf.idx()][v as usize] { c.resources.push(RKey(rf, v)); } } }
+    for rf in RFAMS { for &v in rf.values() { if self.rnodes[rf.idx()][v as usize] { c.resources.push(RKey(rf, v)); } } }
     c.tasks.sort();
     c.resources.sort();
     c.edges.sort();
@@ -844,35 +1064,41 @@ impl MState {
   }
 
   /// Canonical encoding (injective) used for deduplication.
-  pub fn encode(&self) -> u64 {
-    let mut x: u64 = 0;
-    let mut push = |val: u64, bits: u32| { x = (x << bits) | val; };
+  pub fn encode(&self) -> u128 {
+    let mut x: u128 = 0;
+    let mut push = |val: u128, bits: u32| { x = (x << bits) | val; };
     for f in FAMS { for v in 0..2usize {
-      push(match self.leaf[f.idx()][v] { None => 0, Some(c) => 1 + c as u64 }, 2);
+      push(match self.leaf[f.idx()][v] { None => 0, Some(c) => 1 + c as u128 }, 2);
       // seen child output is cell*10+tag with a tag fixed by the family: encode the cell part.
-      push(match self.par[f.idx()][v] { None => 0, Some(o) => 1 + (o / 10) as u64 }, 2);
+      push(match self.par[f.idx()][v] { None => 0, Some(o) => 1 + (o / 10) as u128 }, 2);
     } }
-    for rf in 0..2 { for v in 0..2 { push(self.rnodes[rf][v] as u64, 1); push(self.cells[rf][v] as u64, 1); } }
+    for rf in 0..NR { for v in 0..2 { push(self.rnodes[rf][v] as u128, 1); push(self.cells[rf][v] as u128, 1); } }
     x
   }
 
-  /// Rule for `distinct_nontrivial`: at least two task nodes of different concrete types with the same value coexist.
+  /// Rule for `distinct_nontrivial`: at least two task nodes of different concrete types that look alike coexist:
+  /// same value among the families with a field, or two zero-sized task types (identical empty hash, identical
+  /// dangling box address).
   pub fn nontrivial(&self) -> bool {
     for v in 0..2usize {
-      let n = FAMS.iter().filter(|f| self.leaf[f.idx()][v].is_some()).count();
+      let n = FAMS.iter().filter(|f| !f.fieldless() && self.leaf[f.idx()][v].is_some()).count();
       if n >= 2 { return true; }
     }
-    false
+    self.zero_sized_lookalikes()
+  }
+  /// At least two task nodes of different zero-sized task types coexist.
+  pub fn zero_sized_lookalikes(&self) -> bool {
+    [Fam::ZTA, Fam::ZTB, Fam::ZUA, Fam::ZUB, Fam::Unit].iter().filter(|f| self.leaf[f.idx()][0].is_some()).count() >= 2
   }
 
   pub fn to_json(&self) -> Value {
     let mut leaf = BTreeMap::new();
     let mut par = BTreeMap::new();
-    for f in FAMS { for v in 0..2u8 {
+    for f in FAMS { for &v in f.values() {
       if let Some(c) = self.leaf[f.idx()][v as usize] { leaf.insert(TKey::Leaf(f, v).name(), json!({"read_cell": c, "output": f.out(c)})); }
       if let Some(o) = self.par[f.idx()][v as usize] { par.insert(TKey::Par(f, v).name(), json!({"child_output_seen": o})); }
     } }
-    json!({"leaf": leaf, "parents": par, "cells": {"RA": self.cells[0], "RB": self.cells[1]},
+    json!({"leaf": leaf, "parents": par, "cells": {"RA": self.cells[0], "RB": self.cells[1], "ZRA": self.cells[2][0], "ZRB": self.cells[3][0]},
       "resource_nodes": self.census().resources.iter().map(|r| r.name()).collect::<Vec<_>>()})
   }
 }
@@ -886,7 +1112,7 @@ pub fn scope_of(op: &Op) -> Vec<TKey> {
     Op::SetCell(_, _) => {}
     Op::Req(k) => add(*k),
     Op::Req2(a, b) => { add(*a); add(*b); }
-    Op::BottomUp(r) => { for f in FAMS { if f.rfam() == r.0 { add(TKey::Par(f, r.1)); } } }
+    Op::BottomUp(r) => { for f in FAMS { for &v in f.values() { if f.resource(v) == Some(*r) { add(TKey::Par(f, v)); } } } }
   }
   s
 }
@@ -926,8 +1152,8 @@ pub fn judge_step(op: &Op, expect: &Expect, post: &MState, obs: &Obs) -> Vec<Fai
   for e in &c.edges {
     if let EdgeObs::Read { src, dst, .. } = e {
       let (f, v) = src.fam_val();
-      if matches!(src, TKey::Par(..)) || dst.0 != f.rfam() || dst.1 != v {
-        fails.push(Fail { oracle: "C15/B/read-edge-family".into(), what: format!("after {}: task {} has a read edge to resource node {}", op.name(), src.name(), dst.name()), expected: json!(RKey(f.rfam(), v).name()), observed: json!(dst.name()) });
+      if matches!(src, TKey::Par(..)) || f.resource(v) != Some(*dst) {
+        fails.push(Fail { oracle: "C15/B/read-edge-family".into(), what: format!("after {}: task {} has a read edge to resource node {}", op.name(), src.name(), dst.name()), expected: json!(f.resource(v).map(|r| r.name())), observed: json!(dst.name()) });
         break;
       }
     }
@@ -951,11 +1177,11 @@ pub fn judge_step(op: &Op, expect: &Expect, post: &MState, obs: &Obs) -> Vec<Fai
 }
 
 /// Runs `ops` on a fresh Pie, observing every step (stops after a panic).
-pub fn run_path_full(ops: &[Op]) -> Vec<Obs> {
+pub fn run_path_full(ops: &[Op], z: ZForm) -> Vec<Obs> {
   let mut pie = new_pie();
   let mut v = Vec::new();
   for op in ops {
-    let o = apply_real(&mut pie, op, true);
+    let o = apply_real(&mut pie, op, true, z);
     let stop = o.panic.is_some();
     v.push(o);
     if stop { break; }
@@ -981,6 +1207,7 @@ pub fn judge_path(ops: &[Op], obs: &[Obs]) -> Option<(usize, Vec<Fail>, Expect)>
 
 #[derive(Clone, Debug)]
 pub struct Cfg {
+  pub name: &'static str,
   pub keys: Vec<TKey>,
   pub pairs: Vec<(TKey, TKey)>,
   /// cells that `SetCell` may change
@@ -1001,29 +1228,45 @@ impl Cfg {
     for r in &self.bu_resources { ops.push(Op::BottomUp(*r)); }
     ops
   }
-  pub fn for_tier(tier: Tier) -> Cfg {
+  /// The alphabets explored for a tier (each one to its own fixed point).
+  pub fn for_tier(tier: Tier) -> Vec<Cfg> {
     use Fam::*;
     let l = TKey::Leaf;
     let p = TKey::Par;
+    let (ra0, rb0, ra1, rb1, zra, zrb) = (RKey(RFam::RA, 0), RKey(RFam::RB, 0), RKey(RFam::RA, 1), RKey(RFam::RB, 1), RKey(RFam::ZRA, 0), RKey(RFam::ZRB, 0));
     match tier {
-      Tier::Thorough => Cfg {
-        keys: vec![l(A, 0), l(B, 0), l(BoxA, 0), l(RcA, 0), l(ArcA, 0), l(BoxB, 0), p(A, 0), p(B, 0), p(BoxA, 0), l(A, 1), l(B, 1)],
-        pairs: vec![(p(A, 0), l(A, 0)), (l(A, 0), p(A, 0)), (l(A, 0), l(B, 0)), (l(A, 0), l(BoxA, 0)), (p(A, 0), p(B, 0)), (p(BoxA, 0), p(A, 0))],
-        resources: vec![RKey(RFam::RA, 0), RKey(RFam::RB, 0), RKey(RFam::RA, 1), RKey(RFam::RB, 1)],
-        bu_resources: vec![RKey(RFam::RA, 0), RKey(RFam::RB, 0), RKey(RFam::RA, 1), RKey(RFam::RB, 1)],
-        depth_cap: 64,
-        wall_cap_s: 480.0,
-        pruned_note: "full key set: all six concrete task types at value 0, FA/FB also at value 1, parents of FA(0), FB(0) and Box<FA>(0), all four cells",
-      },
-      Tier::Quick => Cfg {
-        keys: vec![l(A, 0), l(B, 0), l(BoxA, 0), l(RcA, 0), l(ArcA, 0), l(BoxB, 0), p(A, 0), p(B, 0), l(A, 1)],
-        pairs: vec![(p(A, 0), l(A, 0)), (l(A, 0), l(B, 0)), (l(A, 0), l(BoxA, 0))],
-        resources: vec![RKey(RFam::RA, 0), RKey(RFam::RB, 0), RKey(RFam::RA, 1)],
-        bu_resources: vec![RKey(RFam::RA, 0), RKey(RFam::RB, 0), RKey(RFam::RA, 1)],
+      Tier::Thorough => vec![
+        Cfg {
+          name: "zero-sized",
+          keys: vec![l(A, 0), l(B, 0), l(ZTA, 0), l(ZTB, 0), l(BoxZTA, 0), l(ZUA, 0), l(ZUB, 0), l(Unit, 0), p(A, 0), p(ZTA, 0), p(ZUA, 0)],
+          pairs: vec![(l(ZTA, 0), l(ZTB, 0)), (l(Unit, 0), l(ZTA, 0)), (l(ZUA, 0), l(ZUB, 0)), (p(ZTA, 0), l(ZTA, 0)), (l(A, 0), l(ZTA, 0)), (l(ZTA, 0), l(BoxZTA, 0))],
+          resources: vec![ra0, rb0, zra, zrb],
+          bu_resources: vec![ra0, rb0, zra, zrb],
+          depth_cap: 64,
+          wall_cap_s: 280.0,
+          pruned_note: "zero-sized alphabet: unit-struct tasks ZTA, ZTB (behave like FA(0), FB(0)), Box<ZTA>, ZUA, ZUB (reading the unit-struct resources ZRA, ZRB), pie's unit task (), next to FA(0), FB(0); parents of FA(0), ZTA and ZUA; all four cells",
+        },
+        Cfg {
+          name: "classic",
+          keys: vec![l(A, 0), l(B, 0), l(BoxA, 0), l(RcA, 0), l(ArcA, 0), l(BoxB, 0), p(A, 0), p(B, 0), p(BoxA, 0), l(A, 1), l(B, 1)],
+          pairs: vec![(p(A, 0), l(A, 0)), (l(A, 0), p(A, 0)), (l(A, 0), l(B, 0)), (l(A, 0), l(BoxA, 0)), (p(A, 0), p(B, 0)), (p(BoxA, 0), p(A, 0))],
+          resources: vec![ra0, rb0, ra1, rb1],
+          bu_resources: vec![ra0, rb0, ra1, rb1],
+          depth_cap: 64,
+          wall_cap_s: 570.0,
+          pruned_note: "classic alphabet: all six concrete FA/FB task types at value 0, FA/FB also at value 1, parents of FA(0), FB(0) and Box<FA>(0), all four RA/RB cells",
+        },
+      ],
+      Tier::Quick => vec![Cfg {
+        name: "quick-mixed",
+        keys: vec![l(A, 0), l(B, 0), l(BoxA, 0), l(RcA, 0), l(ZTA, 0), l(ZTB, 0), l(ZUA, 0), p(A, 0), p(ZTA, 0)],
+        pairs: vec![(p(A, 0), l(A, 0)), (l(ZTA, 0), l(ZTB, 0)), (l(A, 0), l(ZTA, 0))],
+        resources: vec![ra0, rb0, zra],
+        bu_resources: vec![ra0, rb0, zra],
         depth_cap: 64,
         wall_cap_s: 18.0,
-        pruned_note: "quick tier prunes FB(1), P(BoxA,0) and the cell RB(1) from the thorough alphabet (and three of the two-key sessions); all six concrete task types at value 0, both parents, FA(1) (same type, other value, own resource node RA(1)) stay in",
-      },
+        pruned_note: "quick tier: FA(0), FB(0), Box<FA>(0), Rc<FA>(0), the zero-sized tasks ZTA, ZTB, ZUA (reading the zero-sized resource ZRA), parents of FA(0) and ZTA. Pruned against the thorough tier (to stay under 25 s): Arc<FA>, Box<FB>, FA(1), FB(1), Box<ZTA>, ZUB/ZRB, the unit task () (covered by the scripted scenario in every run), P(B,0), P(BoxA,0), P(ZUA,0), the cells RA(1), RB(1), ZRB and most two-key sessions",
+      }],
     }
   }
 }
@@ -1039,6 +1282,7 @@ pub struct BStats {
   pub depth_capped: bool,
   pub wall_capped: bool,
   pub nontrivial_states: usize,
+  pub zero_sized_lookalike_states: usize,
   /// [op kind: 0 require, 1 bottom-up][executed tasks 0,1,2,3+]
   pub exec_hist: [[usize; 4]; 2],
   pub outputs_hist: BTreeMap<u8, usize>,
@@ -1074,7 +1318,7 @@ pub fn bfs(cfg: &Cfg, start: std::time::Instant) -> BfsResult {
   let alphabet = cfg.alphabet();
   let mut states: Vec<MState> = vec![MState::default()];
   let mut parent: Vec<(u32, u16)> = vec![(u32::MAX, 0)];
-  let mut visited: HashSet<u64> = HashSet::new();
+  let mut visited: HashSet<u128> = HashSet::new();
   visited.insert(states[0].encode());
   let mut frontier: Vec<u32> = vec![0];
   let mut stats = BStats::default();
@@ -1095,7 +1339,7 @@ pub fn bfs(cfg: &Cfg, start: std::time::Instant) -> BfsResult {
     let next = AtomicUsize::new(0);
     let nthreads = threads();
     // (frontier position, op index, encoded successor) of successors not yet visited before this level
-    let mut new_succ: Vec<(u32, u16, u64)> = Vec::new();
+    let mut new_succ: Vec<(u32, u16, u128)> = Vec::new();
     let mut level_fails: Vec<LevelFail> = Vec::new();
     std::thread::scope(|sc| {
       let mut handles = Vec::new();
@@ -1104,7 +1348,7 @@ pub fn bfs(cfg: &Cfg, start: std::time::Instant) -> BfsResult {
         handles.push(sc.spawn(move || {
           crate::runner::install_panic_hook();
           let mut st = BStats::default();
-          let mut succ: Vec<(u32, u16, u64)> = Vec::new();
+          let mut succ: Vec<(u32, u16, u128)> = Vec::new();
           let mut lf: Vec<LevelFail> = Vec::new();
           loop {
             let lo = next.fetch_add(8, Ordering::SeqCst);
@@ -1123,7 +1367,7 @@ pub fn bfs(cfg: &Cfg, start: std::time::Instant) -> BfsResult {
                   let mut pie = new_pie();
                   let mut broken = false;
                   for pop in &path {
-                    let o = apply_real(&mut pie, pop, false);
+                    let o = apply_real(&mut pie, pop, false, ZForm::BoxDeref);
                     st.sessions_on_real_pie += 1;
                     if o.panic.is_some() { broken = true; break; }
                   }
@@ -1132,7 +1376,7 @@ pub fn bfs(cfg: &Cfg, start: std::time::Instant) -> BfsResult {
                   applied = path.clone();
                   live = Some(pie);
                 }
-                let obs = apply_real(live.as_mut().unwrap(), op, true);
+                let obs = apply_real(live.as_mut().unwrap(), op, true, ZForm::BoxDeref);
                 applied.push(*op);
                 st.sessions_on_real_pie += 1;
                 let mut post = pre;
@@ -1196,6 +1440,7 @@ pub fn bfs(cfg: &Cfg, start: std::time::Instant) -> BfsResult {
   if frontier.is_empty() && fails.is_empty() { stats.fixed_point = true; }
   stats.states = states.len();
   stats.nontrivial_states = states.iter().filter(|s| s.nontrivial()).count();
+  stats.zero_sized_lookalike_states = states.iter().filter(|s| s.zero_sized_lookalikes()).count();
   let deepest_path = path_of(&parent, (states.len() - 1) as u32);
   BfsResult { stats, fails, deepest_path }
 }
@@ -1204,36 +1449,51 @@ pub fn bfs(cfg: &Cfg, start: std::time::Instant) -> BfsResult {
 // Driver
 // =====================================================================================================================
 
-const RULE: &str = "identity = (concrete type, value): part A — for every ordered pair of keys from 8 same-representation families x 2 values, every equality route through dyn KeyObj is true iff same type and equal value, equal keys hash equal, and hash maps/sets (random, fixed and all-colliding hasher) keep exactly one entry per (type,value); part B — after every operation of every explored sequence on a real Pie the returned outputs, the executed task identities (tracker), and the complete store census (hook: task nodes with cached outputs, resource nodes, edges, lookup-map sizes) equal a reference model whose cache is keyed by (type,value)";
-const NONTRIVIAL_RULE: &str = "part A: ordered cross-type pairs with equal value whose dyn-KeyObj hashes coincide (the cases where only the type check separates the keys); part B: distinct explored states in which at least two task nodes of different concrete types with the same value (identical Debug text and hash within the FA/FB families) coexist in the store";
+const RULE: &str = "identity = (concrete type, value): part A — for every ordered pair of keys from 15 families (8 same-representation families with a field x 2 values; 7 field-less ones: unit structs ZA, ZB, WA(ZA), pie's unit key (), Box/Rc/Arc of a unit struct), every one of the six equality routes through dyn KeyObj, evaluated for every combination of operand forms (borrowed from a value, boxed, static, promoted constant), is true iff same type and equal value, equal keys hash equal, and hash maps/sets (random, fixed and all-colliding hasher) keep exactly one entry per (type,value) and find it through every operand form; part B — after every operation of every explored sequence on a real Pie the returned outputs, the executed task identities (tracker), and the complete store census (hook: task nodes with cached outputs, resource nodes, edges, lookup-map sizes) equal a reference model whose cache is keyed by (type,value); zero-sized task / resource keys are handed to pie through `&*Box::new(key)` (the address every stored zero-sized key has)";
+const NONTRIVIAL_RULE: &str = "part A: ordered cross-type pairs with equal value whose dyn-KeyObj hashes coincide (the cases where only the type check separates the keys; all pairs of zero-sized types are among them); part B: distinct explored states in which at least two task nodes of different concrete types that look alike coexist in the store (same value among FA/FB/Box/Rc/Arc, or two zero-sized task types)";
 
-fn showcase_path() -> Vec<Op> {
+/// Scripted scenarios, judged like every BFS transition under both operand forms for zero-sized keys.
+fn scripted_paths() -> Vec<(&'static str, Vec<Op>)> {
   use Fam::*;
   let l = TKey::Leaf;
   let p = TKey::Par;
+  let (ra0, rb0, ra1, rb1, zra, zrb) = (RKey(RFam::RA, 0), RKey(RFam::RB, 0), RKey(RFam::RA, 1), RKey(RFam::RB, 1), RKey(RFam::ZRA, 0), RKey(RFam::ZRB, 0));
   vec![
-    Op::Req(l(A, 0)), Op::Req(l(B, 0)), Op::Req(l(BoxA, 0)), Op::Req(l(RcA, 0)), Op::Req(l(ArcA, 0)), Op::Req(l(BoxB, 0)),
-    Op::Req(p(A, 0)), Op::Req(p(B, 0)), Op::Req(p(BoxA, 0)), Op::Req(l(A, 1)), Op::Req(l(B, 1)),
-    Op::SetCell(RKey(RFam::RA, 0), 1), Op::BottomUp(RKey(RFam::RA, 0)), Op::Req(l(B, 0)), Op::Req2(l(A, 0), p(A, 0)),
-    Op::SetCell(RKey(RFam::RB, 0), 1), Op::Req(p(B, 0)), Op::Req(p(A, 0)), Op::Req(l(BoxB, 0)),
-    Op::SetCell(RKey(RFam::RB, 1), 1), Op::BottomUp(RKey(RFam::RB, 1)), Op::BottomUp(RKey(RFam::RA, 1)),
+    // smallest case first: two unit-struct tasks that behave differently
+    ("two-unit-struct-tasks", vec![Op::Req(l(ZTA, 0)), Op::Req(l(ZTB, 0)), Op::Req(l(ZTA, 0)), Op::Req2(l(ZTB, 0), l(ZTA, 0))]),
+    // pie's unit task and two unit-struct tasks in one Pie: three task nodes, each executed once
+    ("unit-and-unit-structs", vec![
+      Op::Req(l(Unit, 0)), Op::Req(l(ZTA, 0)), Op::Req(l(ZTB, 0)), Op::Req2(l(Unit, 0), l(ZTA, 0)), Op::Req(l(ZTB, 0)),
+      Op::Req(l(ZUA, 0)), Op::Req(l(ZUB, 0)), Op::Req(l(BoxZTA, 0)), Op::BottomUp(zrb), Op::BottomUp(zra),
+      Op::SetCell(zra, 1), Op::BottomUp(zrb), Op::BottomUp(zra), Op::Req(l(ZUB, 0)), Op::Req(p(ZTA, 0)), Op::Req(p(ZTB, 0)), Op::Req(p(Unit, 0)),
+      Op::SetCell(rb0, 1), Op::Req2(l(ZTA, 0), l(ZTB, 0)), Op::SetCell(zrb, 1), Op::Req2(l(ZUA, 0), l(ZUB, 0)), Op::Req(l(Unit, 0)),
+    ]),
+    // resource nodes of zero-sized resources created by bottom-up reports only
+    ("zero-sized-resource-reports", vec![Op::BottomUp(zra), Op::BottomUp(zrb), Op::Req(l(ZUB, 0)), Op::Req(l(ZUA, 0))]),
+    ("all-types", vec![
+      Op::Req(l(A, 0)), Op::Req(l(B, 0)), Op::Req(l(BoxA, 0)), Op::Req(l(RcA, 0)), Op::Req(l(ArcA, 0)), Op::Req(l(BoxB, 0)),
+      Op::Req(p(A, 0)), Op::Req(p(B, 0)), Op::Req(p(BoxA, 0)), Op::Req(l(A, 1)), Op::Req(l(B, 1)), Op::Req(l(ZTA, 0)), Op::Req(l(ZTB, 0)), Op::Req(l(Unit, 0)),
+      Op::SetCell(ra0, 1), Op::BottomUp(ra0), Op::Req(l(B, 0)), Op::Req2(l(A, 0), p(A, 0)),
+      Op::SetCell(rb0, 1), Op::Req(p(B, 0)), Op::Req(p(A, 0)), Op::Req(l(BoxB, 0)), Op::Req(l(ZTB, 0)),
+      Op::SetCell(rb1, 1), Op::BottomUp(rb1), Op::BottomUp(ra1),
+    ]),
   ]
 }
 
-fn path_sample(ops: &[Op], obs: &[Obs]) -> Value {
+fn path_sample(ops: &[Op], obs: &[Obs], z: ZForm) -> Value {
   let steps: Vec<Value> = ops.iter().zip(obs.iter()).map(|(op, o)| json!({
     "op": op.name(), "outputs": o.outputs, "executed": o.executed.iter().map(|k| k.name()).collect::<Vec<_>>(),
     "task_nodes": o.census.tasks.iter().map(|(k, out)| format!("{}={:?}", k.name(), out)).collect::<Vec<_>>(),
     "resource_nodes": o.census.resources.iter().map(|r| r.name()).collect::<Vec<_>>(),
   })).collect();
-  json!({"part": "B", "ops": ops.iter().map(|o| o.name()).collect::<Vec<_>>(), "steps": steps})
+  json!({"part": "B", "zero_sized_operand_form": z.name(), "ops": ops.iter().map(|o| o.name()).collect::<Vec<_>>(), "steps": steps})
 }
 
-fn b_violation(ops: &[Op], step: usize, f: &Fail, obs: &Obs, post: &MState) -> Violation {
+fn b_violation(ops: &[Op], step: usize, f: &Fail, obs: &Obs, post: &MState, z: ZForm) -> Violation {
   Violation {
     property: "C15".into(), oracle: f.oracle.clone(), key: String::new(),
-    what: format!("{} [path: {}]", f.what, ops.iter().map(|o| o.name()).collect::<Vec<_>>().join(" ")),
-    replay: json!({"part": "B", "ops": ops.iter().map(|o| o.name()).collect::<Vec<_>>(), "failing_step": step, "oracle": f.oracle,
+    what: format!("{} [path: {}; zero-sized keys passed as {}]", f.what, ops.iter().map(|o| o.name()).collect::<Vec<_>>().join(" "), z.name()),
+    replay: json!({"part": "B", "zst_form": z.name(), "ops": ops.iter().map(|o| o.name()).collect::<Vec<_>>(), "failing_step": step, "oracle": f.oracle,
       "expected": f.expected, "observed": f.observed, "model_state_after": post.to_json(), "model_store_after": post.census().to_json(), "observation": obs.to_json()}),
   }
 }
@@ -1244,22 +1504,27 @@ fn part_a(report: &mut dyn FnMut(Violation)) -> (AStats, Vec<Value>) {
   let mut st = AStats::default();
   let mut samples = Vec::new();
   let mut seen_oracles: Vec<String> = Vec::new();
-  for (i, x) in keys.iter().enumerate() {
-    for (j, y) in keys.iter().enumerate() {
+  for x in keys.iter() {
+    for y in keys.iter() {
       let o = observe_pair(*x, *y);
       st.pairs += 1;
-      st.evaluations += 6; // six equality routes
+      st.evaluations += o.eqs.len(); // six equality routes x operand forms
+      st.equality_evaluations += o.eqs.len();
       if x == y { st.same_key_pairs += 1; }
       else if x.0 == y.0 { st.same_type_other_value += 1; }
       else if x.1 == y.1 {
         st.cross_type_equal_value += 1;
-        if o.hash_dyn_x == o.hash_dyn_y { st.cross_type_equal_dyn_hash += 1; }
+        if o.hash_dyn_x[0] == o.hash_dyn_y[0] { st.cross_type_equal_dyn_hash += 1; }
         if o.debug_x == o.debug_y { st.cross_type_equal_debug += 1; }
+        if x.0.zero_sized() && y.0.zero_sized() { st.cross_type_zero_sized_pairs += 1; }
       } else { st.cross_type_other_value += 1; }
-      if o.eq_dyn { st.observed_equal += 1; } else { st.observed_unequal += 1; }
+      if x.0 != y.0 { st.cross_type_same_address_evaluations += o.eqs.iter().filter(|e| e.same_addr).count(); }
+      if o.eq_dyn_stored() { st.observed_equal += 1; } else { st.observed_unequal += 1; }
       st.dyn_hash_checked += 1;
-      if o.hash_dyn_x == o.hash_conc_x { st.dyn_hash_equals_concrete_hash += 1; }
-      if (i, j) == (0, 1) || (i, j) == (0, 4) || (i, j) == (0, 0) || (i, j) == (0, 8) || (i, j) == (5, 6) {
+      if o.hash_dyn_x[0] == o.hash_conc_x { st.dyn_hash_equals_concrete_hash += 1; }
+      let name = |k: &(KFam, u8)| a_key_name(*k);
+      let is = |a: &str, b: &str| name(x) == a && name(y) == b;
+      if is("A:0", "B:0") || is("A:0", "Box<A>:0") || is("A:0", "A:0") || is("A:0", "A:1") || is("ZA:0", "ZB:0") || is("ZA:0", "():0") || is("ZA:0", "Box<ZA>:0") {
         samples.push(json!({"part": "A", "x": a_key_name(*x), "y": a_key_name(*y), "expected_same": x == y, "observed": o.to_json()}));
       }
       for f in judge_pair(*x, *y, &o) {
@@ -1273,9 +1538,9 @@ fn part_a(report: &mut dyn FnMut(Violation)) -> (AStats, Vec<Value>) {
   for order in 0..(2 * keys.len()) {
     let obs = observe_collections(order);
     st.collection_orders += 1;
-    for o in &obs { st.collection_lookups += o.lookups.len() + o.contains.len(); st.evaluations += o.lookups.len() + o.contains.len() + 2; }
+    for o in &obs { let n: usize = o.lookups.iter().map(|l| 2 * l.len()).sum(); st.collection_lookups += n; st.evaluations += n + 2; }
     if order == 0 {
-      samples.push(json!({"part": "A", "case": "collections", "insertion_order": 0, "observed": obs.iter().map(|o| json!({"hasher": o.hasher, "map_len": o.map_len, "set_len": o.set_len, "own_entry_found": o.lookups.iter().zip(keys.iter()).filter(|(l, k)| **l == Some(**k)).count()})).collect::<Vec<_>>()}));
+      samples.push(json!({"part": "A", "case": "collections", "insertion_order": 0, "observed": obs.iter().map(|o| json!({"hasher": o.hasher, "map_len": o.map_len, "set_len": o.set_len, "own_entry_found": o.lookups.iter().zip(keys.iter()).filter(|(l, k)| l.iter().all(|(_, found, inset)| *found == Some(**k) && *inset)).count()})).collect::<Vec<_>>()}));
     }
     for f in judge_collections(order, &obs) {
       if seen_oracles.contains(&f.oracle) { continue; }
@@ -1293,74 +1558,108 @@ pub fn run(args: &Args) -> i32 {
   rep.max_violations = 24;
   if let Some(file) = &args.replay { return replay(file, rep); }
   let start = std::time::Instant::now();
-  let cfg = Cfg::for_tier(args.tier);
+  let cfgs = Cfg::for_tier(args.tier);
 
   // ---- part A
   let mut vs: Vec<Violation> = Vec::new();
   let (ast, mut samples) = part_a(&mut |v| vs.push(v));
   for v in vs.drain(..) { rep.violation(v); }
 
-  // ---- part B: scripted show-case path (all types at once), judged like every BFS transition
-  let mut seen_oracles: Vec<String> = Vec::new();
-  let show = showcase_path();
-  let show_obs = run_path_full(&show);
-  let show_obs2 = run_path_full(&show);
-  if show_obs != show_obs2 { engine_error("C15: two executions of the scripted path differ"); }
-  let scripted_steps = show_obs.len();
-  // `bfs-only` (extra argument, used to demonstrate that the search finds defects without the scripted path)
+  // ---- part B: scripted scenarios (all types at once), judged like every BFS transition, under both operand forms
+  // `bfs-only` (extra argument, used to demonstrate that the search finds defects without the scripted paths)
   let bfs_only = args.extra.iter().any(|e| e == "bfs-only");
-  if let Some((step, fails, _)) = judge_path(&show, &show_obs).filter(|_| !bfs_only) {
-    let mut m = MState::default();
-    for op in &show[..=step] { let _ = m.step(op); }
-    for f in &fails {
-      if seen_oracles.contains(&f.oracle) { continue; }
-      seen_oracles.push(f.oracle.clone());
-      rep.violation(b_violation(&show[..=step], step, f, &show_obs[step], &m));
+  let mut seen_oracles: Vec<String> = Vec::new();
+  let mut scripted_steps = 0usize;
+  for (name, path) in scripted_paths() {
+    for z in [ZForm::BoxDeref, ZForm::Local] {
+      let obs = run_path_full(&path, z);
+      let obs2 = run_path_full(&path, z);
+      if obs != obs2 { engine_error(&format!("C15: two executions of the scripted path {} differ", name)); }
+      scripted_steps += obs.len();
+      if let Some((step, fails, _)) = judge_path(&path, &obs).filter(|_| !bfs_only) {
+        let mut m = MState::default();
+        for op in &path[..=step] { let _ = m.step(op); }
+        for f in &fails {
+          if seen_oracles.contains(&f.oracle) { continue; }
+          seen_oracles.push(f.oracle.clone());
+          rep.violation(b_violation(&path[..=step], step, f, &obs[step], &m, z));
+        }
+      }
+      if z == ZForm::BoxDeref { samples.push(path_sample(&path, &obs, z)); }
     }
   }
-  samples.push(path_sample(&show, &show_obs));
 
-  // ---- part B: BFS
-  let res = bfs(&cfg, start);
-  for bf in &res.fails {
-    for f in &bf.fails {
-      if seen_oracles.contains(&f.oracle) { continue; }
-      seen_oracles.push(f.oracle.clone());
-      rep.violation(b_violation(&bf.ops, bf.step, f, &bf.obs, &bf.post));
+  // ---- part B: BFS, one search per alphabet
+  let mut total = BStats::default();
+  total.fixed_point = true;
+  let mut per_alphabet = Vec::new();
+  let mut any_fail = false;
+  for cfg in &cfgs {
+    let t0 = start.elapsed().as_secs_f64();
+    let res = bfs(cfg, start);
+    for bf in &res.fails {
+      any_fail = true;
+      for f in &bf.fails {
+        if seen_oracles.contains(&f.oracle) { continue; }
+        seen_oracles.push(f.oracle.clone());
+        rep.violation(b_violation(&bf.ops, bf.step, f, &bf.obs, &bf.post, ZForm::BoxDeref));
+      }
     }
+    if res.fails.is_empty() && !res.deepest_path.is_empty() {
+      let obs = run_path_full(&res.deepest_path, ZForm::BoxDeref);
+      samples.push(path_sample(&res.deepest_path, &obs, ZForm::BoxDeref));
+    }
+    let s = &res.stats;
+    let alphabet = cfg.alphabet();
+    per_alphabet.push(json!({
+      "name": cfg.name, "alphabet": alphabet.iter().map(|o| o.name()).collect::<Vec<_>>(), "alphabet_size": alphabet.len(), "key_set": cfg.pruned_note,
+      "depth_cap": cfg.depth_cap, "wall_cap_s_from_start": cfg.wall_cap_s,
+      "states": s.states, "transitions": s.transitions, "max_depth": s.max_depth, "wall_s": start.elapsed().as_secs_f64() - t0,
+      "search_end": if s.fixed_point { "fixed point" } else if s.depth_capped { "depth cap" } else if s.wall_capped { "wall cap" } else { "violation" },
+      "states_with_lookalike_task_nodes": s.nontrivial_states, "states_with_two_zero_sized_task_types": s.zero_sized_lookalike_states,
+      "states_per_bfs_level": s.levels,
+    }));
+    total.merge(s);
+    total.states += s.states;
+    total.nontrivial_states += s.nontrivial_states;
+    total.zero_sized_lookalike_states += s.zero_sized_lookalike_states;
+    total.max_depth = total.max_depth.max(s.max_depth);
+    total.fixed_point &= s.fixed_point;
+    total.depth_capped |= s.depth_capped;
+    total.wall_capped |= s.wall_capped;
   }
-  if res.fails.is_empty() && !res.deepest_path.is_empty() {
-    let obs = run_path_full(&res.deepest_path);
-    samples.push(path_sample(&res.deepest_path, &obs));
-  }
-  let s = &res.stats;
-  let alphabet = cfg.alphabet();
+  let s = &total;
   rep.set("states", json!(s.states));
   rep.set("transitions", json!(s.transitions));
   rep.set("traces_validated_against_impl", json!(s.transitions + scripted_steps));
+  rep.set("scripted_steps_validated", json!(scripted_steps));
   rep.set("sessions_executed_on_real_pie", json!(s.sessions_on_real_pie));
   rep.set("fresh_pie_instances", json!(s.fresh_instances));
   rep.set("samples", Value::Array(samples));
   let exhaustive = s.fixed_point;
   rep.set("exhaustive", json!(exhaustive));
   rep.set("exhaustive_note", json!(if exhaustive {
-    "part A: all ordered pairs of the stated families/values; part B: BFS reached its fixed point (no new model states) for the stated alphabet"
-  } else if !res.fails.is_empty() {
+    "part A: all ordered pairs of the stated families/values in all operand forms; part B: the BFS of every stated alphabet reached its fixed point (no new model states)"
+  } else if any_fail {
     "search stopped at the first level containing a violation"
   } else {
-    "part A complete; part B complete up to the reported max_depth only (depth or wall cap hit)"
+    "part A complete; part B: at least one alphabet is complete only up to its reported max_depth (depth or wall cap hit, see bounds.part_b.alphabets)"
   }));
   rep.set("search_end", json!(if s.fixed_point { "fixed point" } else if s.depth_capped { "depth cap" } else if s.wall_capped { "wall cap" } else { "violation" }));
   rep.set("rule", json!(RULE));
   rep.set("evaluations", json!(ast.evaluations + s.transitions + scripted_steps));
   rep.set("distinct_nontrivial", json!(ast.cross_type_equal_dyn_hash + s.nontrivial_states));
   rep.set("distinct_nontrivial_rule", json!(NONTRIVIAL_RULE));
-  rep.set("distinct_nontrivial_detail", json!({"part_a_cross_type_equal_value_equal_hash_pairs": ast.cross_type_equal_dyn_hash, "part_b_states_with_lookalike_task_nodes": s.nontrivial_states}));
+  rep.set("distinct_nontrivial_detail", json!({"part_a_cross_type_equal_value_equal_hash_pairs": ast.cross_type_equal_dyn_hash, "part_a_pairs_of_two_different_zero_sized_types": ast.cross_type_zero_sized_pairs,
+    "part_b_states_with_lookalike_task_nodes": s.nontrivial_states, "part_b_states_with_two_zero_sized_task_types": s.zero_sized_lookalike_states}));
   rep.set("distinct_outcomes", json!({
     "part_a": {
-      "ordered_pairs": ast.pairs, "same_key_pairs": ast.same_key_pairs, "same_type_other_value_pairs": ast.same_type_other_value,
+      "ordered_pairs": ast.pairs, "equality_evaluations (routes x operand forms)": ast.equality_evaluations,
+      "same_key_pairs": ast.same_key_pairs, "same_type_other_value_pairs": ast.same_type_other_value,
       "cross_type_equal_value_pairs": ast.cross_type_equal_value, "cross_type_other_value_pairs": ast.cross_type_other_value,
       "cross_type_equal_value_pairs_with_equal_dyn_hash": ast.cross_type_equal_dyn_hash, "cross_type_equal_value_pairs_with_equal_debug_text": ast.cross_type_equal_debug,
+      "pairs_of_two_different_zero_sized_types": ast.cross_type_zero_sized_pairs,
+      "cross_type_equality_evaluations_whose_operands_share_one_address": ast.cross_type_same_address_evaluations,
       "pairs_observed_equal": ast.observed_equal, "pairs_observed_unequal": ast.observed_unequal,
       "dyn_hash_equals_concrete_hash (informational, not an oracle)": format!("{}/{}", ast.dyn_hash_equals_concrete_hash, ast.dyn_hash_checked),
       "collection_insertion_orders": ast.collection_orders, "collection_lookups": ast.collection_lookups,
@@ -1369,19 +1668,20 @@ pub fn run(args: &Args) -> i32 {
       "require_sessions_by_tasks_executed": {"0": s.exec_hist[0][0], "1": s.exec_hist[0][1], "2": s.exec_hist[0][2], "3+": s.exec_hist[0][3]},
       "bottom_up_sessions_by_tasks_executed": {"0": s.exec_hist[1][0], "1": s.exec_hist[1][1], "2": s.exec_hist[1][2], "3+": s.exec_hist[1][3]},
       "set_cell_transitions": s.setcell_transitions,
-      "returned_outputs_histogram": s.outputs_hist.iter().map(|(k, v)| (k.to_string(), json!(v))).collect::<serde_json::Map<String, Value>>(),
+      "returned_outputs_histogram (0 = unit)": s.outputs_hist.iter().map(|(k, v)| (k.to_string(), json!(v))).collect::<serde_json::Map<String, Value>>(),
       "cache_hits_while_a_lookalike_of_another_type_was_cached": s.cache_hits_with_lookalike_present,
-      "states_per_bfs_level": s.levels,
     },
   }));
   rep.set("bounds", json!({
-    "part_a": {"families": KFAMS.iter().map(|f| f.name()).collect::<Vec<_>>(), "values": KVALS, "pairs": "all ordered pairs", "hashers": ["RandomState", "DefaultHasher(fixed)", "ConstHasher(all collide)"], "insertion_orders": "all rotations, forward and reversed"},
-    "part_b": {"alphabet": alphabet.iter().map(|o| o.name()).collect::<Vec<_>>(), "alphabet_size": alphabet.len(), "depth_cap": cfg.depth_cap, "wall_cap_s": cfg.wall_cap_s, "key_set": cfg.pruned_note, "threads": threads()},
+    "part_a": {"families": KFAMS.iter().map(|f| f.name()).collect::<Vec<_>>(), "values": "0 and 1 for families with a field, the single value for field-less families", "keys": a_keys().len(), "pairs": "all ordered pairs",
+      "operand_forms": ["stored (borrowed from a value)", "boxed", "static", "promoted constant"], "hashers": ["RandomState", "DefaultHasher(fixed)", "ConstHasher(all collide)"], "insertion_orders": "all rotations, forward and reversed"},
+    "part_b": {"alphabets": per_alphabet, "zero_sized_operand_form_in_bfs": "box-deref", "scripted_paths": scripted_paths().iter().map(|(n, p)| json!({"name": n, "ops": p.len(), "operand_forms": ["box-deref", "local"]})).collect::<Vec<_>>(), "threads": threads()},
     "dyn_TaskObj": "not nameable outside the crate (trait_object::task is pub(crate)); task identity is checked through the real Store in part B",
   }));
   rep.set("max_depth", json!(s.max_depth));
   rep.assume("Task / resource types of the harness are deterministic and their Eq/Hash/Debug are as written in c15.rs; a `Hash for dyn KeyObj` that differs from the concrete hash is reported as information only (identity must not depend on hash quality).");
   rep.assume("schedule_tasks_affected_by creates a resource node for a resource that was never read; the model counts reported resources as resource nodes (observed behaviour, not an identity issue).");
+  rep.assume("pie's unit task `()` has output `()`; the harness shows it as 0 in outputs and cached outputs.");
   rep.finish()
 }
 
@@ -1429,16 +1729,17 @@ fn replay(file: &std::path::Path, mut rep: Report) -> i32 {
     "B" => {
       let ops: Vec<Op> = r.get("ops").and_then(|o| o.as_array()).unwrap_or_else(|| engine_error("replay: ops missing"))
         .iter().map(|s| s.as_str().and_then(Op::parse).unwrap_or_else(|| engine_error(&format!("replay: bad op {}", s)))).collect();
-      let o1 = run_path_full(&ops);
-      let o2 = run_path_full(&ops);
+      let z = match r.get("zst_form").and_then(|z| z.as_str()) { None => ZForm::BoxDeref, Some(t) => ZForm::parse(t).unwrap_or_else(|| engine_error("replay: bad zst_form")) };
+      let o1 = run_path_full(&ops, z);
+      let o2 = run_path_full(&ops, z);
       if o1 != o2 { engine_error("replay: two executions of the operation path differ: not a verdict"); }
       steps = o1.len();
       if let Some((step, fails, _)) = judge_path(&ops, &o1) {
         let mut m = MState::default();
         for op in &ops[..=step] { let _ = m.step(op); }
-        for f in &fails { found.push(b_violation(&ops[..=step], step, f, &o1[step], &m)); }
+        for f in &fails { found.push(b_violation(&ops[..=step], step, f, &o1[step], &m, z)); }
       }
-      rep.set("samples", json!([path_sample(&ops, &o1)]));
+      rep.set("samples", json!([path_sample(&ops, &o1, z)]));
     }
     _ => engine_error("replay: unknown part"),
   }
@@ -1543,6 +1844,35 @@ mod tests {
   }
 
   #[test]
+  fn zero_sized_types_are_separate_keys() {
+    let (zra, zrb) = (RKey(RFam::ZRA, 0), RKey(RFam::ZRB, 0));
+    let mut m = MState::default();
+    // pie's unit task and two unit structs: three nodes, each executed once
+    assert_eq!(m.step(&Op::Req(l(Fam::Unit, 0))), Expect { outputs: vec![0], executed: vec![l(Fam::Unit, 0)] });
+    assert_eq!(m.step(&Op::Req(l(Fam::ZTA, 0))), Expect { outputs: vec![1], executed: vec![l(Fam::ZTA, 0)] });
+    assert_eq!(m.step(&Op::Req(l(Fam::ZTB, 0))), Expect { outputs: vec![2], executed: vec![l(Fam::ZTB, 0)] });
+    assert_eq!(m.step(&Op::Req2(l(Fam::Unit, 0), l(Fam::ZTA, 0))), Expect { outputs: vec![0, 1], executed: vec![] });
+    assert_eq!(m.census().tasks.len(), 3);
+    assert_eq!(m.census().resources, vec![RA0, RB0]);
+    // ZTA is not FA(0) although both read RA(0) and return the same value
+    assert_eq!(m.step(&Op::Req(l(Fam::A, 0))).executed, vec![l(Fam::A, 0)]);
+    // the unit task has no dependency: never re-executed, untouched by any report
+    m.step(&Op::SetCell(RA0, 1));
+    assert_eq!(m.step(&Op::BottomUp(RA0)).executed, vec![l(Fam::A, 0), l(Fam::ZTA, 0)]);
+    assert!(m.step(&Op::Req(l(Fam::Unit, 0))).executed.is_empty());
+    // zero-sized resources: own nodes, own cells
+    assert_eq!(m.step(&Op::Req(l(Fam::ZUA, 0))).outputs, vec![3]);
+    assert_eq!(m.step(&Op::Req(l(Fam::ZUB, 0))).outputs, vec![4]);
+    m.step(&Op::SetCell(zra, 1));
+    assert!(m.step(&Op::BottomUp(zrb)).executed.is_empty());
+    assert_eq!(m.step(&Op::BottomUp(zra)).executed, vec![l(Fam::ZUA, 0)]);
+    assert_eq!(m.step(&Op::Req2(l(Fam::ZUA, 0), l(Fam::ZUB, 0))), Expect { outputs: vec![13, 4], executed: vec![] });
+    assert_eq!(m.census().resources, vec![RA0, RB0, zra, zrb]);
+    // parent of a unit-struct task shares the child's entry
+    assert_eq!(m.step(&Op::Req(p(Fam::ZTA, 0))), Expect { outputs: vec![11], executed: vec![p(Fam::ZTA, 0)] });
+  }
+
+  #[test]
   fn bottom_up_creates_the_reported_resource_node_only() {
     let mut m = MState::default();
     let e = m.step(&Op::BottomUp(RB0));
@@ -1553,9 +1883,9 @@ mod tests {
 
   #[test]
   fn encoding_is_injective_on_reachable_states() {
-    let cfg = Cfg::for_tier(Tier::Quick);
+    let cfg = Cfg::for_tier(Tier::Quick).remove(0);
     let ops = cfg.alphabet();
-    let mut seen: HashMap<u64, MState> = HashMap::new();
+    let mut seen: HashMap<u128, MState> = HashMap::new();
     let mut frontier = vec![MState::default()];
     seen.insert(frontier[0].encode(), frontier[0]);
     for _ in 0..4 {
@@ -1572,19 +1902,27 @@ mod tests {
   #[test]
   fn op_names_round_trip() {
     for tier in [Tier::Quick, Tier::Thorough] {
-      for op in Cfg::for_tier(tier).alphabet() { assert_eq!(Op::parse(&op.name()), Some(op), "{}", op.name()); }
+      for cfg in Cfg::for_tier(tier) { for op in cfg.alphabet() { assert_eq!(Op::parse(&op.name()), Some(op), "{}", op.name()); } }
     }
-    for op in showcase_path() { assert_eq!(Op::parse(&op.name()), Some(op)); }
+    for (_, path) in scripted_paths() { for op in path { assert_eq!(Op::parse(&op.name()), Some(op), "{}", op.name()); } }
+    for f in FAMS { for &v in f.values() {
+      assert_eq!(TKey::parse(&TKey::Leaf(f, v).name()), Some(TKey::Leaf(f, v)));
+      assert_eq!(TKey::parse(&TKey::Par(f, v).name()), Some(TKey::Par(f, v)));
+    } }
+    for f in RFAMS { for &v in f.values() { assert_eq!(RKey::parse(&RKey(f, v).name()), Some(RKey(f, v))); } }
     for k in a_keys() { assert_eq!(a_key_parse(&a_key_name(k)), Some(k)); }
   }
 
   #[test]
   fn model_agrees_with_real_pie_on_the_scripted_path() {
     crate::runner::install_panic_hook();
-    let ops = showcase_path();
-    let obs = run_path_full(&ops);
-    assert_eq!(obs.len(), ops.len());
-    assert!(judge_path(&ops, &obs).is_none());
+    for (name, ops) in scripted_paths() {
+      for z in [ZForm::BoxDeref, ZForm::Local] {
+        let obs = run_path_full(&ops, z);
+        assert_eq!(obs.len(), ops.len(), "{}", name);
+        assert!(judge_path(&ops, &obs).is_none(), "{}", name);
+      }
+    }
   }
 
   #[test]
